@@ -12,1295 +12,2466 @@ Definition show_fres (r : fres) : string :=
   end.
 Definition check (rs : list rune) : string := digest (show_fres (format_res rs)).
 Definition full (rs : list rune) : string := show_fres (format_res rs).
-Eval vm_compute in ("<<<M1990>>>" ++ check (runes_of_ascii "// top
-    options 
-	// c0
-	{ 	 // c1
-	StringPrefixLenType  // c2a
-    // c2b
-	= // c3
-u16 ; 
-// c5
-ArrayPrefixLenType	// c6a
-
-// c6b
-  	=	// c7a
-    	// c7b
-
-	u32	// c8
-		; 
-FixedStringPadFromLeft 	 // c10a
-
-  // c10b
-    = 	 // c11
-
-false 
-// c12
-;	// c13a
-// c13b
-	FixedStringPadChar  // c14a
-// c14b
-=  // c15
-'0'
-
-// c16
-; // c17
-    	} 
-	// c18
-	packet  Logout 
-// c20
-  	{ 	 // c21
-
-	f64 
-f1// c23a
-	// c23b
-, // c24
-i16
-// c25
-  	Note// c26
-  , 	 // c27
-    @rightPad	(// c29
-  '\x00'	// c30
-		) char[	// c32
-  11 	 // c33
-	]// c34a
-    	// c34b
-    	Flags  // c35a
-// c35b
-
-, 
-    // c36
-} 	 // c37
-    packet 	 // c38
-      Cancel 	 // c39a
-	// c39b
-  	{ 	 // c40
-  float64
-    // c41
-	  msgKind , 
-      // c43
-    } // c44
-	packet 
-// c45
-      Reject	// c46a
-
-  // c46b
-      { 	 // c47
-
-InQty43 	 // c48a
-    // c48b
-		{// c49
-
-  float32 // c50a
-
-  // c50b
-		sym	// c51
-	, // c52
-
-  char[	// c53a
-	// c53b
-
-	10
-	// c54
-    ] 
-    // c55
-Tail // c56
-    , // c57a
-    // c57b
-    	uint8  // c58
-venue// c59a
-
-// c59b
-    ,  // c60
-	uint16
-	    // c61
-		f1 , 
-    // c63
-
-char[
-
-    9
-
-    ]
-	Acct
-	// c67
-	, // c68
-    }  , // c70
-		}	// c71a
-// c71b
-    packet Trade 
-// c73
-{ // c74
-char[]  // c75a
-  // c75b
-	  x
-    ,// c77a
-    	// c77b
-	zchar[	// c78
-  6]  // c80
-
-  Note
-
-,// c82a
-// c82b
-repeat 	 // c83a
-	// c83b
-Reject	// c84a
-	// c84b
-	,
-	}  root
-
-    // c87
-	packet 
-
-// c88
-    Order // c89a
-	// c89b
-    {	// c90a
-  // c90b
-
-	Cancel ,
-	Logout 	 // c93
-
-,	// c94a
-
-// c94b
-      u64 // c95
-  Acct  // c96
-	,
-u32// c98a
-	// c98b
-	OrderId
-// c99
-
-, match	// c101
-
-OrderId// c102a
-		// c102b
-
-  as 	 // c103
-  Body  // c104a
-// c104b
-    {
-	[ 	 // c106
-  127 // c107
-	, 	 // c108a
-    	// c108b
-
-70
-    // c109
-	]
-: 	 // c111a
-// c111b
-	Reject
-    // c112
-
-,177  // c114a
-// c114b
-		:	// c115
-  Trade
-,
-
-    // c117
-      58 
-      // c118
-      :  // c119a
-// c119b
-  Logout
-,	75 // c122
-:
-	    // c123
-  	Cancel  // c124a
-    	// c124b
-    , 
-// c125
-
-} 
-  // c126
-	  ,u32// c128a
-  // c128b
-	Tail
-// c129
-  @calculatedFrom(
-	    // c130
-  ""CRC32"" 	 // c131
-
-	) 	 // c132a
-	// c132b
-, 	 // c133
-    }	// c134")).
-Eval vm_compute in ("<<<M25>>>" ++ check (runes_of_ascii "root
-    packet u128{pack @lengthOf(MetaDataX)	`say ""hi""` ,repeat lengthOf {
-    int8 o
-    `crlf
-line` ,
-    } // " ++ [27880; 37322]%N ++ runes_of_ascii "
-, @lengthOf( tag
-    ) char[
+Eval vm_compute in ("<<<M209>>>" ++ check (runes_of_ascii "MetaData packetx { float32
+    Logon , }
+packet u{ repeat options1
+Z9_ ,
+    zchar[
     007
-    ] chars @lengthOf(MetaDataX ) , u
-    @calculatedFrom( ""\n"" )// `tick` ""quote"" 'q'
-, @lengthOf(  Z9_
-    ) u32 A
-@lengthOf( charz ) ,u16 float@lengthOf(
-    As ) ,A u128
+    ] x_y_z/// triple
+, crc ``,
+    @leftPad ( '\x00' )
+    @tag( 7 )@tag(	3 ) repeat x_y_z { match As
+    as tag { ""1"" : Header, } , repeat
+    char[65535] msg_type , float
+{ charz @lengthOf( // c
+float
+    )`100% of %d` , match Z9_ as
+//	t
+/// triple
+tag // a // b
+{""it's"": u128/// triple
+,	[
+    // `tick` ""quote"" 'q'
+    7 ] : charz
+, // 50% %s
+""packet"" :
+f32a ,[// @lengthOf(
+""\n""] :	a1, [ ""1"" , 65535
+// " ++ [27880; 37322]%N ++ runes_of_ascii "
+// `tick` ""quote"" 'q'
+] :
+    metadata [ 65535 , ""`tick`"" ,	0123456789
+, ""\n"", 00 , ""x y"" , ""CRC32""
+,0
+] :
+u8x
+,}	,
+} , match metadata as int
+{ 00
+:
+i64_, [ 3
+]: u8x ,7 : roots,// a // b
+10 // a // b
+:
+    //x
+    metadata , [ 65535 , ""abc""
+,  ""packet""
+]: /// triple
+calculatedFrom
+    //	t
+    ,/// triple
+},
+    //	t
+    } ,
+}packet
+    x{match rootA as
+//	t
+//x
+rootA	{0123456789
+:
+options1
+    , //
+[
+    65535
+    , ""\n"" ,
+    """" , //x
+4294967296, ""`tick`""
+,""`tick`"" ]
+    :  msg_type
+,
+3 // @lengthOf(
+: // c
+rootA [
+    4294967296 ,255
+    ]:// " ++ [128512]%N ++ runes_of_ascii " emoji
+u128
+    // `tick` ""quote"" 'q'
+    , 007:	options1, ""abc"": // @lengthOf(
+i8i8, },
+    u64 MetaDataX
+@lengthOf( chars )
+    `crlf
+line`,@calculatedFrom( """ ++ [28040; 24687]%N ++ runes_of_ascii """ ) @leftPad (
+' ' ) @tag( 007 )repeat	A // `tick` ""quote"" 'q'
+{
+    repeat repeatCount	stringy
+    `a\` /// triple
+,
+match roots // c
+as roots {
+""\" ++ [233]%N ++ runes_of_ascii """ :
+    float , } , asx// a // b
+T ,
+char[ 10
+] i64_
+@calculatedFrom( ""a\\"") `" ++ [28040; 24687; 31867; 22411]%N ++ runes_of_ascii "`
+,
+    //
+    } , @rightPad // " ++ [128512]%N ++ runes_of_ascii " emoji
+( '\x00' // 50% %s
+)@rightPad
+// 50% %s
+// " ++ [128512]%N ++ runes_of_ascii " emoji
+( ' ' // `tick` ""quote"" 'q'
+)
+    // packet A { u8 x, }
+    @calculatedFrom(	""" ++ [28040; 24687]%N ++ runes_of_ascii """ )
+char[] //
+tag ,
+    @calculatedFrom( """ ++ [233]%N ++ runes_of_ascii "t" ++ [233]%N ++ runes_of_ascii """  ) repeat packetx u8x
+,
+zchar[ 00]
+    u128
+    `a\`, @lengthOf( lengthOf )repeatCount@lengthOf(calculatedFrom	) , @calculatedFrom(  ""\" ++ [233]%N ++ runes_of_ascii """ )
+@leftPad ( '0')
+    char[  65535]	T `
+`,	zchar[ 3
+] len,// @lengthOf(
+}  packet tag{ repeat len  string_ `" ++ [28040; 24687; 31867; 22411]%N ++ runes_of_ascii "`
+    , i32 uint8x @lengthOf( len) ,repeat
+T trueish `crlf
+line` , match Foo as
+options1
+{0 :
+string_""`tick`"" :
+metadata // c
+[	""" ++ [128512]%N ++ runes_of_ascii """,  ""x y""
+    ] : body
+    , } ,@calculatedFrom(""abc"") repeat f32  lengthOf, @lengthOf( charz
+) f64 chars@lengthOf(	_x //	t
+) `" ++ [28040; 24687; 31867; 22411]%N ++ runes_of_ascii "` ,@calculatedFrom(
+""\" ++ [233]%N ++ runes_of_ascii """ ) repeat//x
+body , u128 ,}
+packet matchKey {
+int8 //	t
+roots`" ++ [28040; 24687; 31867; 22411]%N ++ runes_of_ascii "`,
+    match
+roots as rootA{ 7
+:x } ,charz@lengthOf( o// " ++ [27880; 37322]%N ++ runes_of_ascii "
+)
+    , // 50% %s
+match /// triple
+i64_ as Header	{""it's""
+    : crc	, ""a\\"":
+    Header	, ""a\""b""
+    :
+charz ,10
+: // @lengthOf(
+int, 1
+: repeatCount , }
+    , // c
+i32  lengthOf `{ , }` , zchar[00// `tick` ""quote"" 'q'
+]
+x `" ++ [233]%N ++ runes_of_ascii "`
+, u32 Packet  @lengthOf(
+    crc
+    //	t
+    ) `// not a comment`
+,char[
+    //	t
+    1
+    ] lengthOf,  lengthOf
+    `it's` , }
+")).
+Eval vm_compute in ("<<<M3543>>>" ++ check (runes_of_ascii "// top
+options // c0
+{ // c1a
+  // c1b
+StringPrefixLenType =
+    // c3
+u16 ; // c5
+ArrayPrefixLenType
+    // c6
+= u32 // c8a
+  // c8b
+;
+    // c9
+FixedStringPadChar =
+    // c11
+'0'
+    // c12
+; } // c14a
+  // c14b
+packet // c15
+Ack // c16a
+  // c16b
+{ // c17a
+  // c17b
+zchar[
+    // c18
+9 ]
+    // c20
+Ref ,
+    // c22
+repeat // c23a
+  // c23b
+u64
+    // c24
+Flags // c25a
+  // c25b
+, // c26
+char[ 9 // c28a
+  // c28b
+]
+    // c29
+lastPx , char[] Tail , } // c35a
+  // c35b
+packet
+    // c36
+Logon {
+    // c38
+Ack // c39
+, repeat
+    // c41
+InSide298 { // c43
+repeat
+    // c44
+Ack // c45
+, u8 // c47
+clOrdID , // c49
+repeat // c50a
+  // c50b
+InNote61 // c51
+{ // c52
+zchar[ // c53
+4 // c54
+] // c55
+tag7 ,
+    // c57
+float32 clOrdID // c59a
+  // c59b
+, int16 // c61a
+  // c61b
+Note // c62
+, // c63a
+  // c63b
+char[] // c64a
+  // c64b
+Acct // c65a
+  // c65b
+, uint16
+    // c67
+Side2 , // c69
+string // c70
+OrderId // c71
+, // c72
+} , } // c75a
+  // c75b
+,
+    // c76
+u16 price
+    // c78
+,
+    // c79
+uint8 // c80a
+  // c80b
+Acct // c81a
+  // c81b
+, // c82a
+  // c82b
+i32
+    // c83
+tag7 // c84a
+  // c84b
+, // c85
+@rightPad ( // c87
+'0'
+    // c88
+) // c89
+char[ // c90
+5 // c91a
+  // c91b
+] // c92a
+  // c92b
+lastPx ,
+    // c94
+} // c95a
+  // c95b
+packet // c96
+Cancel
+    // c97
+{ u16 // c99
+seqNo // c100a
+  // c100b
+,
+    // c101
+} // c102a
+  // c102b
+packet
+    // c103
+Leg // c104
+{ // c105a
+  // c105b
+repeat // c106a
+  // c106b
+Ack
+    // c107
+, repeat InNote13 // c110
+{ int32 // c112
+seqNo
+    // c113
+, // c114
+Ack // c115a
+  // c115b
+, // c116
+} // c117
+,
+    // c118
+} packet // c120a
+  // c120b
+Quote // c121a
+  // c121b
+{ string
+    // c123
+OrderId // c124
+, // c125a
+  // c125b
+} // c126a
+  // c126b
+root packet Trade
+    // c129
+{ // c130
+repeat // c131a
+  // c131b
+InAcct24 // c132
+{ // c133
+float64 msgKind , // c136a
+  // c136b
+} // c137a
+  // c137b
+, // c138
+} ")).
+Eval vm_compute in ("<<<M993>>>" ++ check (runes_of_ascii "  options {MetaDataX // @lengthOf(
+= 1 ; matchKey = ""it's""
+    ;
+f32a= f64	; //	t
+options1= true }	packet
+As{ char[
+7 ]lengthOf @lengthOf(
+Foo
+)
+`say ""hi""`
+    , string msg_type @lengthOf( float  )
+,
+    @calculatedFrom( ""packet"" )	@tag(00 )
+    o
+falsey`say ""hi""` ,@lengthOf(
+    As
+    )zchar[00
+] repeatCount `it's` // " ++ [128512]%N ++ runes_of_ascii " emoji
+, int
+    // 50% %s
+    ,
+string chars, // @lengthOf(
+string  string_ , }  options // `tick` ""quote"" 'q'
+{} packet lengthOf {@tag(
+    007
+    ) match zchar as lengthOf { 4294967296 : x_y_z
+    ,
+[""// no comment""] : Z9_ 1 :
+packetx
+, """ ++ [233]%N ++ runes_of_ascii "t" ++ [233]%N ++ runes_of_ascii """  :
+    x_y_z ,  }
+,
+// " ++ [27880; 37322]%N ++ runes_of_ascii "
+// " ++ [27880; 37322]%N ++ runes_of_ascii "
+char[]falsey `// not a comment` , @tag( 4294967296)repeat len
+{ string body @lengthOf(
+//x
+//
+As), match	options1 as x_y_z {[ """ ++ [233]%N ++ runes_of_ascii "t" ++ [233]%N ++ runes_of_ascii """
+] ://	t
+body	,255 : o,
+""\n"" :
+    // " ++ [27880; 37322]%N ++ runes_of_ascii "
+    u8x
+10 :
+    i8i8
+    , ""1"" : rootA
+, } , } ,
+string leftPad// `tick` ""quote"" 'q'
+@calculatedFrom( // trailing space 
+""""
+    ) ,	char Header
+``, @tag(// c
+42 ) @lengthOf( body ) @tag( 65535 )
+matchKey
+    // c
+    ,
+//
+// 50% %s
+repeat
+    msg_type
+    { falsey {
+repeat len { match float
+as
+stringy {[ 007 , ""packet"" , 007
+, ""\n"",// packet A { u8 x, }
+""abc""
+, 1
+// @lengthOf(
+// c
+,	4294967296	]:matchKey
+//
+// " ++ [128512]%N ++ runes_of_ascii " emoji
+,
+    42 : f32a// trailing space 
+, // `tick` ""quote"" 'q'
+[ 10 , // 50% %s
+""a\\"" ]
+    : a1 , //x
+65535 :  tag , } ,	}//
+,
+} ,
+    u64 _x `" ++ [28040; 24687; 31867; 22411]%N ++ runes_of_ascii "`// c
+,
+pack , }
+, repeat As
+{ repeat /// triple
+string pack
+    ,  uint8 leftPad
+    @lengthOf( As) ,string
+    // @lengthOf(
+    options1 @calculatedFrom(//
+""// no comment"" )
+    `{ , }` , u8
+leftPad //
+@lengthOf(options1 )
+    , } ,	}
+")).
+Eval vm_compute in ("<<<M447>>>" ++ check (runes_of_ascii "options {Foo = '0'
+float =	42 ;
+    x_y_z
+= f32 ; Packet =
+    ""{,}"" A =
+    // @lengthOf(
+    zchar[ 42]; } packet i8i8{
+match x_y_z as u
+    {
+    // `tick` ""quote"" 'q'
+    [0 , 4294967296
+]: u8x ,	[ """ ++ [28040; 24687]%N ++ runes_of_ascii """
+    ,"""" , ""{,}"" ]: x , } , @tag(0123456789 )repeat	i8 uint8x
+`a\`
+,
+    uint8 u128 @calculatedFrom( ""packet"") , uint16 u128 `it's` ,
+    u8x len
+//	t
 // packet A { u8 x, }
-// packet A { u8 x, }
-`a\` /// triple
-, x_y_z@lengthOf(stringy  )
-`a\` ,
+`
+`,
+} root packet
+    //	t
+    lengthOf { match leftPad
+as // packet A { u8 x, }
+charz
+    {
+007 : pack , // " ++ [128512]%N ++ runes_of_ascii " emoji
+[ 00 ] // @lengthOf(
+: leftPad
+    }
+    ,repeat // a // b
+char[] lengthOf
+`line1
+line2` , tag {char[] roots @calculatedFrom(""\" ++ [233]%N ++ runes_of_ascii """
+), zchar[ 7
+] trueish @lengthOf(
+Header
+    ) ,
+}  ,@leftPad // packet A { u8 x, }
+('\x00' ) float32 Packet	`100% of %d` ,
+    roots ,
+repeat
+char[
+7 ] pack
+,
+chars
+    packetx  `tab	here`,@calculatedFrom( ""`tick`""
+    )u16	Z9_
+    `u8 x,`, char[]
+trueish	, }MetaData lengthOf { char[1	] Z9_ `{ , }`	, } packet metadata { // " ++ [128512]%N ++ runes_of_ascii " emoji
+@tag(7	)
+    @tag( 10)
+@lengthOf( f32a) u128 { match body as
+    i8i8	{ [ 007 ,
+""x y""	]
+    : pack
+""a	b"" : As
+, 4294967296
+:
+    Packet ,""" ++ [28040; 24687]%N ++ runes_of_ascii """
+    : i64_ ,
+}	,
+    /// triple
+    } , char[] Foo	@lengthOf( u8x )`it's`,
+string rootA@calculatedFrom( ""packet"" ) ,@calculatedFrom( """ ++ [233]%N ++ runes_of_ascii "t" ++ [233]%N ++ runes_of_ascii """ ) zchar[	00
+    ] int
+@calculatedFrom(""""
+    )`doc` ,	msg_type{ match crc as Pad { 0 // c
+:body, //x
+""`tick`""
+/// triple
+//x
+:a1
+} , }
+, }
+")).
+Eval vm_compute in ("<<<M29>>>" ++ check (runes_of_ascii "// trailing space 
+root
+packet x
+{// @lengthOf(
+repeat zchar[  7
+] i64_ , }packet As { @calculatedFrom(""" ++ [28040; 24687]%N ++ runes_of_ascii """)
+    o `" ++ [28040; 24687; 31867; 22411]%N ++ runes_of_ascii "`
+    ,	string
+a1
+`u8 x,`
+,
+@lengthOf( rootA ) // " ++ [128512]%N ++ runes_of_ascii " emoji
+repeat
+uint32 lengthOf
+`// not a comment` ,
+@rightPad
+    ( ' ' )u128 T , }
+    options { A =
+    ""\" ++ [233]%N ++ runes_of_ascii """ float
+= char[ 65535 ];calculatedFrom =
+""packet"";// @lengthOf(
+lengthOf =
+    false
+; }	root packet lengthOf
+{ // `tick` ""quote"" 'q'
+uint16 x_y_z
+    `a\`
+    ,	f32 T ,len @lengthOf(repeatCount
+) , i8 chars@lengthOf(Z9_ )
+`say ""hi""`,@leftPad( ' '
+) float32 _x `doc`	, @calculatedFrom(
+    ""{,}"" ) zchar @lengthOf(i8i8
+)
+, repeat char[  1/// triple
+]  repeatCount
+`two words` , @calculatedFrom( ""{,}"" ) @calculatedFrom( ""abc""
+    )@lengthOf( stringy )
+    MetaDataX//
+,string len `100% of %d`, @leftPad (
+' '
+)match calculatedFrom as Logon
+{
+[
+""// no comment"" /// triple
+] : // @lengthOf(
+MetaDataX
+, ""a\""b""  :
+// a // b
+// trailing space 
+f32a
+[ 3 , 4294967296 ,0123456789 ,
+""{,}"",""x y"", 3 ]:
+i8i8 ,} , // 50% %s
+} packet crc//
+{
+repeat packetx , @leftPad (
+    '0'
+)
+    pack
+`tab	here`	,	Pad
+,
+@calculatedFrom( ""abc""
+    )u64
+// a // b
+//
+i64_`tab	here`, @tag( 0123456789 ) // trailing space 
+zchar[
+    255
+] u, match
+tag as x{255:
+    u128 , } /// triple
+, }")).
+Eval vm_compute in ("<<<M3885>>>" ++ check (runes_of_ascii "packet metadata {
+    // a // b
+    @tag(0123456789)
+    repeat options1,
+    rootA {
+        u32 x_y_z `two words`,
+        u8 options1 `" ++ [28040; 24687; 31867; 22411]%N ++ runes_of_ascii "`,
+    },
+    @lengthOf(Header)
+    string Pad @calculatedFrom(""a\\"") `" ++ [233]%N ++ runes_of_ascii "`,
+    match u as pack {
+        [255, """ ++ [233]%N ++ runes_of_ascii "t" ++ [233]%N ++ runes_of_ascii """, 1] : packetx,
+        [3] : stringy,
+        7 : chars,
+        [""a	b""] : leftPad,
+        3 : matchKey,
+        ""a\""b"" : i64_,
+    },
+    @tag(00)
+    a1 options1 `crlf
+    line`,
+    @tag(42)
+    string Logon @calculatedFrom(""\" ++ [233]%N ++ runes_of_ascii """),
+    @lengthOf(Foo)
+    @calculatedFrom(""// no comment"")
+    @calculatedFrom(""packet"")
+    int16 Header `u8 x,`,
+    stringy,
+}// @lengthOf(
+
+packet o {
+    repeat i16 T `two words`,
+    @tag(7)
+    a1 @lengthOf(asx) `tab	here`,
+    @tag(7)
+    @calculatedFrom(""a	b"")
+    char[65535] asx @calculatedFrom(""a\\""),
 }
-    root packet x_y_z
-    {@lengthOf( crc	)  i64 pack // " ++ [27880; 37322]%N ++ runes_of_ascii "
+
+packet metadata {
+}
+
+packet falsey {
+    char[] calculatedFrom @lengthOf(falsey) `a\`,
+    @calculatedFrom(""\n"")
+    repeat char[] o `// not a comment`,
+    char[] a1,
+    o @calculatedFrom(""packet""),
+    lengthOf,
+    @lengthOf(x_y_z)
+    repeat i8 calculatedFrom `line1
+    line2`,
+    i64 pack,
+    @tag(007)
+    @rightPad(' ')
+    f32a @lengthOf(len),
+}")).
+Eval vm_compute in ("<<<M4329>>>" ++ check (runes_of_ascii "MetaData chars {
+    // @lengthOf(
+    falsey As,
+    char[42] o,// " ++ [128512]%N ++ runes_of_ascii " emoji
+    string_ Header,
+}
+
+MetaData falsey {
+    zchar[0] falsey `{ , }`,
+    int32 MetaDataX,
+    char[255] Foo,
+    int64 u128,
+    char[] u128,// packet A { u8 x, }
+}
+
+packet metadata {
+    // packet A { u8 x, }
+    //	t
+    metadata @calculatedFrom(""`tick`""),
+    repeat pack roots `line1
+    line2`,
+    string_ @calculatedFrom(""\n""),
+    repeat trueish {
+        trueish T,
+        //x
+        // `tick` ""quote"" 'q'
+        u16 asx,
+        body {
+            repeat _x {
+                _x @lengthOf(i8i8) `say ""hi""`,
+                // a // b
+                //
+            },
+        },
+    },
+    @calculatedFrom(""a\\"")
+    repeat chars {
+        f32a {
+            // c
+            zchar[255] msg_type,
+            repeat float64 stringy `
+            `,
+        },
+        repeat uint8x `tab	here`,
+        Logon {
+            repeat f64 MetaDataX,
+            u64 T @lengthOf(body),
+        },
+    },
+    @lengthOf(trueish)
+    // " ++ [27880; 37322]%N ++ runes_of_ascii "
+    // @lengthOf(
+    float64 _x @calculatedFrom(""" ++ [128512]%N ++ runes_of_ascii """),
+}
+
+MetaData chars {
+}")).
+Eval vm_compute in ("<<<M129>>>" ++ check (runes_of_ascii "packet int{// packet A { u8 x, }
+@tag(
+// c
+// a // b
+00 ) repeat zchar[
+65535
+    ]  crc , repeat
+    u32 body
+`it's`
+,
+    @calculatedFrom( ""x y""	) match
+    zchar as T {
+    [ ""// no comment"",
+    7 ]// packet A { u8 x, }
+:
+uint8x , 007: Header ""{,}""
+    :BodyLength , ""packet"" : int // c
+, [  ""abc"" ,1, ""a\\""
+,""packet"" ] :u128 , [
+    // " ++ [128512]%N ++ runes_of_ascii " emoji
+    ""abc"" ] //
+:string_ , // c
+}, msg_type
+    a1	`" ++ [233]%N ++ runes_of_ascii "`
+    , @lengthOf(
+calculatedFrom  ) repeat
+    i32 asx
+, @calculatedFrom(
+""{,}"" ) //x
 @lengthOf(
-    float ) `say ""hi""`
-, }MetaData  uint8x{ }
-    root packet  trueish {  zchar[ 4294967296  ] float@lengthOf( matchKey
-    )/// triple
-,@lengthOf( o
-    ) repeat float rootA
-    , @tag(  7	) int64 // " ++ [128512]%N ++ runes_of_ascii " emoji
-falsey@lengthOf( options1 ) ,Logon// @lengthOf(
-{ tag
-@lengthOf(a1 ) , asx `// not a comment` , float32 zchar
-    ,Pad @calculatedFrom( ""`tick`"" )// @lengthOf(
+x)@rightPad( '0' )repeat
+    i32 a1
+, float32 int@lengthOf(
+lengthOf)
+    `a\` ,
+    @tag( 255 )
+i32
+Z9_ , } // packet A { u8 x, }
+packet Z9_ { rootA a1`doc` ,Header
+    MetaDataX `u8 x,`
+    // 50% %s
+    ,
+    }// " ++ [128512]%N ++ runes_of_ascii " emoji
+root packet	uint8x
+{ @lengthOf( falsey ) // 50% %s
+@tag( 1)@lengthOf(
+pack ) i16
+    calculatedFrom @calculatedFrom( ""1"" )
+    ,}MetaData i64_
+{
+    uint8
+int ,
+    string
+falsey ,
+f64
+u128
+, } packet x_y_z
+    { @calculatedFrom(""" ++ [233]%N ++ runes_of_ascii "t" ++ [233]%N ++ runes_of_ascii """ ) repeat _x { lengthOf @calculatedFrom( ""x y""
+) ,} , }")).
+Eval vm_compute in ("<<<M1281>>>" ++ check (runes_of_ascii "options
+    { charz =  '0' ;
+stringy
+=	true //x
+;	trueish
+=""""
+; rootA
+= true  ;
+}packet Header { match u128
+as
+metadata {
+""a	b"" //x
+:
+    u	65535: x
+    , }
+, //x
+@calculatedFrom(""" ++ [28040; 24687]%N ++ runes_of_ascii """) string matchKey ,zchar[ 255
+] a1`` ,
+    }  packet charz /// triple
+{ @lengthOf( a1 )
+    A	`doc`
+// 50% %s
+// packet A { u8 x, }
+,	@calculatedFrom( ""it's""
+)
+    zchar[ 3] x `tab	here` ,
+    repeat _x zchar	, @lengthOf( crc)zchar[ 255]
+Foo`// not a comment` ,@lengthOf(o )uint64 falsey , @calculatedFrom(""packet""  ) @lengthOf(
+// `tick` ""quote"" 'q'
+// @lengthOf(
+body ) @rightPad ( // packet A { u8 x, }
+'\x00' ) repeat u8x , @leftPad // trailing space 
+( '\x00'
+    )repeat string_
+`say ""hi""`, }	packet
+    lengthOf
+{} packet  leftPad // " ++ [27880; 37322]%N ++ runes_of_ascii "
+{ string charz`// not a comment`,
+    @leftPad (
+'0'
+)	repeat // `tick` ""quote"" 'q'
+BodyLength a1 ,@calculatedFrom( ""x y"" )
+float32 zchar,  repeat //
+char[
+//x
+// `tick` ""quote"" 'q'
+007
+    ]
+uint8x
+// 50% %s
+// " ++ [27880; 37322]%N ++ runes_of_ascii "
+, a1
+, }")).
+Eval vm_compute in ("<<<M753>>>" ++ check (runes_of_ascii "packet int { repeat
+calculatedFrom { zchar[ 255] stringy@calculatedFrom( ""1"")
+    , } ,	pack @lengthOf(i8i8 )
+`// not a comment`	, @calculatedFrom( ""abc""  ) // c
+@rightPad	( ' ' )
+    @lengthOf( MetaDataX ) BodyLength `// not a comment` , f32 pack ,	repeat
+int64 Z9_	, }options
+// @lengthOf(
+/// triple
+{ }
+root packet A { o int
+, repeat repeatCount len `{ , }` ,
+    @lengthOf( len
+    ) repeat char[ 1 ]f32a `two words` ,  i16 crc	,	}root
+    //	t
+    packet
+_x { /// triple
+match metadata
+    as crc// packet A { u8 x, }
+{
+    ""it's"" : BodyLength
+,// 50% %s
+} ,
+@lengthOf( string_ )repeat x leftPad `` , repeat
+    zchar[0] leftPad `two words`
+    ,
+Logon `// not a comment` , float roots
+    //x
+    `100% of %d` ,} MetaData calculatedFrom// " ++ [128512]%N ++ runes_of_ascii " emoji
+{
+char rootA ,
+// packet A { u8 x, }
+// packet A { u8 x, }
+char[] //
+packetx  `line1
+line2`
+,
+int8 metadata// @lengthOf(
+, // packet A { u8 x, }
+}")).
+Eval vm_compute in ("<<<M4530>>>" ++ check (runes_of_ascii "root packet o {
+    char[] _x `
+    `,
+    repeat f32 tag,
+    string leftPad `" ++ [233]%N ++ runes_of_ascii "`,
+    @calculatedFrom(""" ++ [233]%N ++ runes_of_ascii "t" ++ [233]%N ++ runes_of_ascii """)
+    match int as x_y_z {
+        1 : A,
+        7 : body,
+        [""a\\"", 65535] : zchar,
+        ""`tick`"" : pack,
+    },
+    stringy @lengthOf(msg_type),
+    falsey BodyLength,
+    char[] x_y_z @lengthOf(options1) `tab	here`,
+    repeat i8i8 {
+        repeat Header {
+            repeatCount @calculatedFrom(""1"") `" ++ [233]%N ++ runes_of_ascii "`,
+        },
+    },
+    char[007] f32a `tab	here`,
+}
+
+MetaData calculatedFrom {
+    tag falsey `line1
+    line2`,
+}
+
+// " ++ [27880; 37322]%N ++ runes_of_ascii "
+root packet matchKey {
+    @tag(42)
+    metadata,
+    @lengthOf(int)
+    @lengthOf(string_)
+    char[10] options1 ``,
+    packetx {
+        zchar[10] i64_,// 50% %s
+    },
+    @tag(007)
+    @leftPad('0')
+    float64 BodyLength,
+}
+
+options {
+    f32a = ""abc"";
+}
+
+root packet roots {
+    int32 x_y_z `crlf
+    line`,
+}")).
+Eval vm_compute in ("<<<M284>>>" ++ check (runes_of_ascii "root packet Pad {	} packet a1 {
+    repeat int64
+    o
+    `it's` // `tick` ""quote"" 'q'
+,match
+    MetaDataX as asx{// " ++ [27880; 37322]%N ++ runes_of_ascii "
+""1"" :i64_ 00: MetaDataX
+    , 007 : calculatedFrom ,[255  ] : calculatedFrom} ,	@leftPad( ) u8 trueish
+    , T @lengthOf(
+    MetaDataX ) ,  char[ 10
+]
+f32a@lengthOf(matchKey ), i64_
+// trailing space 
+//
+, } MetaData int
+    {// @lengthOf(
+MetaDataX float `// not a comment`, metadata
+//x
+// " ++ [128512]%N ++ runes_of_ascii " emoji
+matchKey `crlf
+line`
+, stringy
+Packet, string	BodyLength	`" ++ [28040; 24687; 31867; 22411]%N ++ runes_of_ascii "`  , } packet pack {
+string
+//	t
+// `tick` ""quote"" 'q'
+Logon @calculatedFrom("""" ) ,  @lengthOf( roots //	t
+)
+f64 u8x , match
+asx as rootA {
+    """"	: msg_type
+}  , BodyLength@lengthOf( float)
+`it's`
+// c
+// " ++ [27880; 37322]%N ++ runes_of_ascii "
+, @lengthOf(falsey // 50% %s
+)repeat i64 f32a ,  @tag(	0) A@lengthOf(
+i8i8 )`doc`
+,pack @lengthOf( msg_type ) `tab	here`  , }
+")).
+Eval vm_compute in ("<<<M768>>>" ++ check (runes_of_ascii "  packet
+tag {@leftPad
+    ( ) i16 stringy ,
+char[]
+packetx @calculatedFrom(""// no comment""
+),  @lengthOf(  float) repeat int64
+As `" ++ [28040; 24687; 31867; 22411]%N ++ runes_of_ascii "` , @calculatedFrom( """ ++ [28040; 24687]%N ++ runes_of_ascii """ )
+zchar[ 42] trueish, charz
+    //
+    T ,crc uint8x
+, f32a
+`two words`, } packet MetaDataX
+{char[ 0123456789 ]u128@calculatedFrom( ""x y"" ) ,}root
+packet i8i8 {
+packetx
+uint8x
+    , asx  { zchar[ 255 ]leftPad @calculatedFrom(	""\n"" ) ,  float64
+    i8i8@calculatedFrom(
+""packet"" ) , repeat i8// @lengthOf(
+zchar, } ,@calculatedFrom( ""`tick`"" ) zchar[00 ]
+chars @calculatedFrom( """ ++ [28040; 24687]%N ++ runes_of_ascii """ ) `u8 x,`
+    , f32 BodyLength
+    @lengthOf(calculatedFrom) `" ++ [28040; 24687; 31867; 22411]%N ++ runes_of_ascii "` ,
+    uint32  MetaDataX
+, } packet Foo { @rightPad (	)
+@rightPad (
+) uint64// 50% %s
+u8x, }options
+    {	u8x =
+true	falsey
+=
+    char[ // " ++ [27880; 37322]%N ++ runes_of_ascii "
+255
+] //	t
+} // trailing space ")).
+Eval vm_compute in ("<<<M1295>>>" ++ check (runes_of_ascii "packet packetx
+    {
+@calculatedFrom(
+    ""a\\"" ) T @calculatedFrom(
+    ""a\\""
+    )`" ++ [28040; 24687; 31867; 22411]%N ++ runes_of_ascii "`
+,  }
+packet charz { @rightPad
+(	) @lengthOf(msg_type )
+    @tag(  10) u64 Header @lengthOf(charz ) ,
+}
+    packet u{ repeat
+lengthOf {
+matchKey @lengthOf( o
+    ) `tab	here`
+    , } ,repeat
+u32	As`" ++ [28040; 24687; 31867; 22411]%N ++ runes_of_ascii "`,@tag( 4294967296)
+    @rightPad (' ')zchar[ 255] // `tick` ""quote"" 'q'
+packetx @lengthOf(// trailing space 
+i64_ ) `100% of %d`
+, a1
+    x `
+` ,u32 string_ @lengthOf( u),  @tag(
+    3 ) packetx
+    // a // b
+    @lengthOf( Packet)`u8 x,` // @lengthOf(
+,
+    f32a @lengthOf(  falsey),
+    trueish
+{ char[ // " ++ [27880; 37322]%N ++ runes_of_ascii "
+00 ] u128 ``,	repeat charz , char[
+    7 ] len
+`it's` , MetaDataX options1 , } , i64 /// triple
+Z9_ ,int32
+Pad //	t
+@lengthOf( Foo)`u8 x,` ,
+}
+")).
+Eval vm_compute in ("<<<M24>>>" ++ check (runes_of_ascii "options {
+o
+    = i16 ;
+roots
+    = //	t
+255
+    ; rootA =
+char[] ; options1 =u32 ;zchar
+    = ""`tick`"" ;} root
+// packet A { u8 x, }
+// packet A { u8 x, }
+packet /// triple
+options1 {repeat int64  BodyLength
+, match
+len
+    as uint8x {
+    ""a	b"": lengthOf	,  ""\" ++ [233]%N ++ runes_of_ascii """: // " ++ [27880; 37322]%N ++ runes_of_ascii "
+pack
+    [ ""x y"" ,
+""packet"" ,""" ++ [128512]%N ++ runes_of_ascii """  ,""\" ++ [233]%N ++ runes_of_ascii """ ,
+    255 ,  ""{,}"" ]  : lengthOf  , [""abc"" ,
+    00/// triple
+,""a\\"" ,
+    ""// no comment"" , 00 ,
+    007 ,  0	, ""packet"" // " ++ [128512]%N ++ runes_of_ascii " emoji
+]: Packet } ,@leftPad// @lengthOf(
+( )
+u i64_ , repeat Z9_ { match f32a as
+    Packet{ """ ++ [28040; 24687]%N ++ runes_of_ascii """ : chars// @lengthOf(
 ,
     } , // trailing space 
-@lengthOf( int
-    ) repeat // a // b
-rootA// trailing space 
-u128 ,
-    repeat char[] leftPad , int8 _x // a // b
-,
-    Packet `` ,
-    // " ++ [27880; 37322]%N ++ runes_of_ascii "
-    match
-len	as uint8x { ""a	b""
-:
-lengthOf
-,""\" ++ [233]%N ++ runes_of_ascii """ :pack
-[ // a // b
-""x y""  ,""packet""
-, """ ++ [128512]%N ++ runes_of_ascii """
-    // " ++ [27880; 37322]%N ++ runes_of_ascii "
-    ,	""\" ++ [233]%N ++ runes_of_ascii """ , 255 , ""{,}""
-    ]:
-lengthOf
-    , [ ""abc"", 00  ,
-    ""a\\"" , ""// no comment""
-, 00 , 007, 0 , ""packet""]: Packet  }
-    // " ++ [27880; 37322]%N ++ runes_of_ascii "
-    , @leftPad()
-    u i64_ ,
-}
-packet trueish { }
-")).
-Eval vm_compute in ("<<<M383>>>" ++ check (runes_of_ascii "options {
-	StringPrefixLenType = u16;
-	ArrayPrefixLenType = u16;
-}
-
-packet SampleBinary {
-	uint16 MsgType `" ++ [28040; 24687; 31867; 22411]%N ++ runes_of_ascii "`,
-	u16 BodyLenght @lengthOf(Body) `" ++ [28040; 24687; 20307; 38271; 24230]%N ++ runes_of_ascii "`,
-	match MsgType as Body {
-		1 : Logon,
-		2 : Logout,
-		3 : Heartbeat,
-		4 : RiskControlRequest,
-		5 : RiskControlResponse,
-	},
-	@calculatedFrom(""CRC32"")
-	u32 Ckecksum `" ++ [26657; 39564; 21644]%N ++ runes_of_ascii "`,
-}
-
-packet Logon {
-	@leftPad('0')
-	char[10] UserName `" ++ [29992; 25143; 21517]%N ++ runes_of_ascii "`,
-	string Password `" ++ [23494; 30721]%N ++ runes_of_ascii "`,
-	uint64 ClientId `" ++ [23458; 25143; 31471]%N ++ runes_of_ascii "ID`,
-	u16 HeartbeatInterval `" ++ [24515; 36339; 38388; 38548]%N ++ runes_of_ascii "`,
-}
-
-packet Logout {
-	@rightPad('0')
-	char[10] UserName `" ++ [29992; 25143; 21517]%N ++ runes_of_ascii "`,
-	uint64 ClientId `" ++ [23458; 25143; 31471]%N ++ runes_of_ascii "ID`,
-}
-
-packet Heartbeat {
-}
-
-packet RiskControlRequest {
-	string UniqueOrderId `" ++ [21807; 19968; 35746; 21333; 21495]%N ++ runes_of_ascii "`,
-	char[16] ClOrdID `" ++ [23458; 25143; 35746; 21333; 21495]%N ++ runes_of_ascii "`,
-	char[3] MarketID `" ++ [24066; 22330]%N ++ runes_of_ascii "id`,
-	char[12] SecurityID `" ++ [35777; 21048; 20195; 30721]%N ++ runes_of_ascii "`,
-	char Side `" ++ [20080; 21334; 26041; 21521]%N ++ runes_of_ascii "`,
-	char OrderType `" ++ [35746; 21333; 31867; 22411]%N ++ runes_of_ascii "`,
-	u64 Price `" ++ [20215; 26684]%N ++ runes_of_ascii "`,
-	u32 Qty `" ++ [25968; 37327]%N ++ runes_of_ascii "`,
-	repeat string ExtraInfo `" ++ [38468; 21152; 20449; 24687]%N ++ runes_of_ascii "`,
-	repeat SubOrder {
-		char[16] ClOrdID `" ++ [23376; 35746; 21333; 21495]%N ++ runes_of_ascii "`,
-		u64 Price `" ++ [23376; 35746; 21333; 20215; 26684]%N ++ runes_of_ascii "`,
-		u32 Qty `" ++ [23376; 35746; 21333; 25968; 37327]%N ++ runes_of_ascii "`,
-	},
-}
-
-packet RiskControlResponse {
-	string UniqueOrderId `" ++ [21807; 19968; 35746; 21333; 21495]%N ++ runes_of_ascii "`,
-	i32 Status `" ++ [29366; 24577]%N ++ runes_of_ascii "`,
-	string Msg `" ++ [32467; 26524; 20449; 24687]%N ++ runes_of_ascii "`,
-	repeat Detail,
-}
-
-packet Detail {
-	string RuleName `" ++ [35268; 21017; 21517; 31216]%N ++ runes_of_ascii "`,
-	u16 Code `" ++ [21407; 22240; 20195; 30721]%N ++ runes_of_ascii "`,
-}")).
-Eval vm_compute in ("<<<M2007>>>" ++ check (runes_of_ascii "packet As {
-    @lengthOf(u8x)
-    repeat u32 T,
-    string Foo @calculatedFrom(""it's"") `doc`,
-    @tag(00)
-    //
-    @tag(42)
-    repeatCount {
-        packetx {
-            repeat f64 x_y_z `doc`,
-            repeat char[65535] crc,
-        },
-        u16 A,
-        o @lengthOf(MetaDataX) `// not a comment`,
-        repeat string BodyLength `
-                `,
-    },
-    repeatCount @lengthOf(chars),
-    match uint8x as As {
-        007 : Packet,
-        """" : Header,
-        3 : zchar,
-        7 : u128,
-        [4294967296, ""x y""] : crc,
-        [""1"", 00] : int,
-    },
-    @lengthOf(Foo)
-    repeat u {
-        string float,
-        string matchKey @calculatedFrom(""it's"") `it's`,
-        repeat Packet repeatCount,
-    },
-    @lengthOf(T)
-    A @lengthOf(rootA) ``,
-    repeatCount @calculatedFrom(""packet""),
-    char[] x @calculatedFrom(""abc"") `crlf
-        line`,
-}
-
-packet i8i8 {
-}
-
-options {
-    MetaDataX = true;//x
-    charz = true;
-}")).
-Eval vm_compute in ("<<<M1917>>>" ++ check (runes_of_ascii "packet
-
-Packet {
-zchar[ 	 /// triple
-    00
-    ]  u @lengthOf(tag ) , repeat 	 // " ++ [128512]%N ++ runes_of_ascii " emoji
-
-string
-	u8x`u8 x,` ,
-    packetx  { 
-repeat uint8
-	leftPad
-
-`doc`, 
-}
-, // " ++ [27880; 37322]%N ++ runes_of_ascii "
-	@tag( 0123456789)
-	char[]
-
-    chars  @lengthOf(	rootA
-
-    // trailing space 
-
-	// c
-    ) 
-`{ , }`, uint8 Packet  ,
-	repeat	a1
-    `two words`
-    //
-  //
-  ,	@calculatedFrom( 
-    //	t
-
-  ""it's""
-	) string_  {u16	A 
-// packet A { u8 x, }
-  	// a // b
-
-`crlf
-line`,
-repeat
-
-string 	 // " ++ [27880; 37322]%N ++ runes_of_ascii "
-	uint8x, string
-    u128
-,	} 
+} ,
+    } packet // a // b
+a1// trailing space 
+{ int16
+    msg_type `it's` , repeat uint16 stringy // a // b
 ,
     }
-	packet MetaDataX { 
-
-//x
-    	@tag(
-0123456789	)  char[ // packet A { u8 x, }
-  3
-    ]	Packet ,
-
-}
-MetaData
-repeatCount  {
-
-    } root
-packet
-    u8x 
-	    // `tick` ""quote"" 'q'
-  {
-    x_y_z // " ++ [27880; 37322]%N ++ runes_of_ascii "
-
-@lengthOf( 
-    // a // b
-o
-
-    ) `two words` ,  // " ++ [27880; 37322]%N ++ runes_of_ascii "
-
-  repeat	zchar[0123456789
-    ]
-
-    len`" ++ [233]%N ++ runes_of_ascii "`
-
-, } 
-	//
- 
 ")).
-Eval vm_compute in ("<<<M1448>>>" ++ check (runes_of_ascii "options  {LittleEndian	=
-	false
-	;StringPrefixLenType
-	= u16	;  ArrayPrefixLenType  =
-    u64
-
-    ;
-FixedStringPadFromLeft
-	=
-	true	;
-FixedStringPadChar = ' '  ;
-}
-
-packet
-    Logon	{
-
-u16	Tail,
-
-repeat
-
-string x  ,
-	i16
-
-    count
-
-,@leftPad( '0')
-	char[  3 ]
-Note
-	,
-	}	packet
-	Fill
-	{ } packet
-
-    Heartbeat{}packet Reject
-{string 
-msgKind
-,	repeat  Logon 
-,
-
-InFlags25 
-{
-    repeat
-
-InPrice29 {
-    u8
-
-price
-    ,
-	Logon
-,
-
-repeat char[1 ]
-Note ,
-
-},char[]x ,
-Fill , 
-}	, repeat
-Heartbeat
-, }
-root
-
-    packet Order {
-InNote88  {
-repeat
-    i32
-    Acct
-	,
-	repeat
-i16 clOrdID  ,
-
-    repeat  Logon,} , u16 tag7
-,
-
-match
-
-tag7 
-as  Body { 
-[
-    14
-
-,
-    22 ]
-
-: Logon,
-    55
-
-: Heartbeat, 93
-	:
-
-Reject
-    , 13
-
-    :Fill , }
-    ,
-
-}
-")).
-Eval vm_compute in ("<<<M2>>>" ++ check (runes_of_ascii "
-packet int{ len	T , }MetaData trueish { // packet A { u8 x, }
-}
-    packet BodyLength { @calculatedFrom( ""packet"" )
-@calculatedFrom(
-    ""CRC32"" )
-    // c
-    @tag(
-00 ) char[ 4294967296 ] stringy, @lengthOf(
-leftPad
-)// c
-char zchar ,@lengthOf( MetaDataX	)@tag(10) // " ++ [128512]%N ++ runes_of_ascii " emoji
-@rightPad ( '0') options1 matchKey//
-`{ , }`
-    // packet A { u8 x, }
-    , @tag( 42
-    ) @tag( 1 ) @tag( 10
-) char[] // c
-stringy
-`doc` , msg_type `" ++ [233]%N ++ runes_of_ascii "` ,
-@lengthOf(trueish )body {	repeat o stringy `crlf
-line` , repeat u32 i8i8 ,
-    char[65535] stringy
-`a\` ,
-    //x
-    }
-    ,
-@calculatedFrom(""packet""	) matchKey/// triple
-, @tag( 4294967296 ) uint32 rootA @lengthOf( trueish ) ,string body `u8 x,` , }")).
-Eval vm_compute in ("<<<M1634>>>" ++ check (runes_of_ascii "
-// " ++ [128512]%N ++ runes_of_ascii " emoji
-		packet	// @lengthOf(
-    int
-{
-match zchar
-    as	_x
-
-{	[ 4294967296]:x_y_z
-,
-	[
-    ""a\""b""// @lengthOf(
-	] :
-    chars,	[	""it's"" ,
-    ""\" ++ [233]%N ++ runes_of_ascii """
-
-, 
-""packet"" 
-,
-	""{,}""  ] 
-:f32a
-
-}
-, x{ repeat
-
-    asx
-
-    {
-
-zchar[
-	0123456789  ]
-crc 
-`crlf
-line`	, msg_type i8i8
-`crlf
-line`, 
-uint16
-	rootA@calculatedFrom( ""a\\""	) 
-  // @lengthOf(
-
-	,  Logon x_y_z
-
-    `" ++ [233]%N ++ runes_of_ascii "` ,
-
-    }
-
-,
-	}
-
-,}	packet
-    u { match
-
-    pack as  trueish //x
-  {
-    ""1""
-	:
-
-len """ ++ [128512]%N ++ runes_of_ascii """ 
-:
-
-    leftPad , 4294967296 	 // @lengthOf(
-	:metadata,}
-
-,
-int T	`line1
-line2`
-    ,f32 
-Logon
-
-,} options {
-} ")).
-Eval vm_compute in ("<<<M1713>>>" ++ check (runes_of_ascii "
-packet
-
-    pack 
-{
-	@rightPad (
-	' ')
-A // c
-    @calculatedFrom( 
-""a\\"")
-    // " ++ [128512]%N ++ runes_of_ascii " emoji
-  // " ++ [128512]%N ++ runes_of_ascii " emoji
-  `
-`,  u8	f32a , 
-zchar[
-
-    007
-	]rootA	`u8 x,` ,	repeat
-    /// triple
-// a // b
-
-string u128//
-  	`u8 x,`
-, @leftPad
-    ( ' '
-) char[ 1
-	]
-repeatCount
-	@calculatedFrom(  //x
-      ""\n"" )
-`doc`
-,
-
-o ,
-falsey leftPad
-
-    , 
-@calculatedFrom( ""a\""b""  )
-	@leftPad
-(
-
-'0'
-    )
-//
+Eval vm_compute in ("<<<M356>>>" ++ check (runes_of_ascii "root packet f32a
+{ repeat Packet string_ ,char[]// trailing space 
+packetx,
+    @calculatedFrom(""abc"" )
+A// a // b
+A  ,@lengthOf(
 // " ++ [27880; 37322]%N ++ runes_of_ascii "
-  roots 
-{
-	u8
-    zchar @lengthOf(
-	Logon
-)	// trailing space 
-  ,
-
+// `tick` ""quote"" 'q'
+crc	) repeat T , }
+    /// triple
+    options{
+    calculatedFrom =	0 ; i64_ /// triple
+=/// triple
+"""" ;
+string_ = ' ' ;
+rootA
+    = """ ++ [233]%N ++ runes_of_ascii "t" ++ [233]%N ++ runes_of_ascii """ ;// `tick` ""quote"" 'q'
+} // c
+root
+packet a1	{ string
+o `" ++ [28040; 24687; 31867; 22411]%N ++ runes_of_ascii "` , // @lengthOf(
+u16 matchKey
+    // packet A { u8 x, }
+    `crlf
+line`
+    // trailing space 
+    , @leftPad (	'0' )
+    string_`
+` , } packet //
+len { // " ++ [27880; 37322]%N ++ runes_of_ascii "
+} packet
+    // @lengthOf(
+    As
+    { @lengthOf(
+f32a) @calculatedFrom( // 50% %s
+""it's""
+) char[]
 // c
-  //	t
-
-	}
-	,	}
-
-")).
-Eval vm_compute in ("<<<M30>>>" ++ check (runes_of_ascii "packet  chars { zchar[ 10
-    ]x
-@lengthOf( repeatCount )
-    ,
-repeat
-    metadata{
-string int ,repeat
-matchKey //x
-, match leftPad as o { 0 : matchKey
-    // " ++ [27880; 37322]%N ++ runes_of_ascii "
-    ,
-[ 0 ]
-: float 0 : packetx// " ++ [128512]%N ++ runes_of_ascii " emoji
-255 :i64_
-    ,//	t
-[0 , 007 , ""a\\"" ,
-    //	t
-    """ ++ [128512]%N ++ runes_of_ascii """
-    ,
-65535  , 255 ]
-:
-charz ,	255 : u,	} , },  @rightPad( ' ' )
-// packet A { u8 x, }
-// " ++ [128512]%N ++ runes_of_ascii " emoji
-@tag( 255
-) // c
-@rightPad
-(	' ' ) u16 falsey,}options
-    { f32a
-= """ ++ [128512]%N ++ runes_of_ascii """ ;	}
-")).
-Eval vm_compute in ("<<<M367>>>" ++ check (runes_of_ascii "packet	T  {
-/// triple
 // @lengthOf(
-@tag( 007 )
-T
-    @calculatedFrom( ""CRC32"")
+Pad
+    // " ++ [128512]%N ++ runes_of_ascii " emoji
+    `" ++ [233]%N ++ runes_of_ascii "`	,
+}
+")).
+Eval vm_compute in ("<<<M196>>>" ++ check (runes_of_ascii "root packet
+options1 { float	@calculatedFrom( ""it's"")`// not a comment`
+, u64 Packet // `tick` ""quote"" 'q'
+`// not a comment`,repeat //	t
+repeatCount
+// @lengthOf(
+// packet A { u8 x, }
+A `
+` ,
+@lengthOf( f32a ) repeat
+stringy asx
+, //x
+int64//x
+crc@calculatedFrom(
+"""" )`u8 x,`
+, match rootA as u { [ ""1""
+    // 50% %s
+    , ""a\""b""]
+: string_, }
+,	zchar[
+// a // b
+// a // b
+65535 ] roots @calculatedFrom( ""CRC32"" /// triple
+)`{ , }` , i32 rootA , } MetaData tag { body metadata , char[	00 ]body `" ++ [233]%N ++ runes_of_ascii "` ,
+uint8 charz,
+    // " ++ [128512]%N ++ runes_of_ascii " emoji
+    zchar[10	] x_y_z ,i8 zchar  ,float32 uint8x `tab	here` ,  } MetaData
+    x_y_z
+    {
+chars a1, string Foo
+    `a\`, }")).
+Eval vm_compute in ("<<<M604>>>" ++ check (runes_of_ascii "packet T {
+    u8 Packet, @leftPad
+    (' ' ) match  o as BodyLength{
+    [ //	t
+""it's""]
+/// triple
+//
+: charz 0 :  T, ""`tick`"" : stringy } //	t
+, Logon
+    A	,
+} root packet Logon
+    {@lengthOf( u8x /// triple
+) repeat metadata Logon  `tab	here`
+,@lengthOf(x ) @tag(// packet A { u8 x, }
+42 )
+@leftPad
+// c
+// a // b
+(
+'\x00' ) _x
+    @calculatedFrom(""" ++ [128512]%N ++ runes_of_ascii """ ) // @lengthOf(
+, zchar[ 0
+] asx
+    , repeat  char  o , body
+Logon,  @tag(0123456789 )repeat lengthOf // " ++ [128512]%N ++ runes_of_ascii " emoji
+{
+    repeat asx
+tag , // @lengthOf(
+lengthOf // a // b
+`line1
+line2`
+    // `tick` ""quote"" 'q'
+    ,
+} , _x ,f64 roots @calculatedFrom( ""a\""b""	)  ,}
+")).
+Eval vm_compute in ("<<<M141>>>" ++ check (runes_of_ascii "root packet chars
+{@calculatedFrom("""" // c
+) char[] Foo@lengthOf(  Pad
+) ,
+//x
+// trailing space 
+match
+x as
+pack { ""CRC32"" : u8x,
+    },asx `" ++ [28040; 24687; 31867; 22411]%N ++ runes_of_ascii "`, @rightPad ( )
+    @calculatedFrom( ""\n"") uint8 zchar // @lengthOf(
+`line1
+line2` // @lengthOf(
+,@lengthOf( x ) f32 Pad, match falsey as
+    BodyLength { """ ++ [233]%N ++ runes_of_ascii "t" ++ [233]%N ++ runes_of_ascii """ // @lengthOf(
+: charz
+    10 : roots	,
+    10 :x_y_z
+, ""`tick`""  :
+_x,""// no comment"" : // 50% %s
+chars[10 , 1
+    ] : Foo
+, } ,	repeat u64 u8x ``
+, } options
+    // @lengthOf(
+    { Logon =
+    // trailing space 
+    zchar[
+    //x
+    10
+] zchar =
+    char[10
+    ]
+;Packet	= 42	;	}
+")).
+Eval vm_compute in ("<<<M614>>>" ++ check (runes_of_ascii "packet
+_x{ @tag( 10 // " ++ [128512]%N ++ runes_of_ascii " emoji
+)
+    repeat asx //
+{repeat u8 As	,/// triple
+zchar[1
+]	falsey ``  ,repeat string
+len
+,//	t
+repeat calculatedFrom
+    options1 ,
+},	zchar
+@calculatedFrom(
+    ""{,}"" ) , @rightPad( ) Pad ,int64
+charz
+    // `tick` ""quote"" 'q'
+    , @lengthOf(o ) //x
+match options1 // a // b
+as As {255:
+u8x , """"	:
+    uint8x ,
+    [ 007, ""`tick`"", 0123456789
+] :T , ""\" ++ [233]%N ++ runes_of_ascii """ :
+As 7 : Z9_ , }
+// trailing space 
+/// triple
+, @leftPad ( '0' )char[ 7 ]asx`{ , }` , float32 metadata @calculatedFrom(
+""\n""	), @tag( 1
+    )repeat
+    // 50% %s
+    len
+,
+}
+")).
+Eval vm_compute in ("<<<M399>>>" ++ check (runes_of_ascii "// " ++ [27880; 37322]%N ++ runes_of_ascii "
+root
+packet calculatedFrom
+    {
+metadata ,@calculatedFrom(/// triple
+""\n"" ) string i8i8 `say ""hi""` ,  float64 /// triple
+roots	`two words`
+,match a1
+as float { [
+42 ]
+:options1
+"""" : msg_type , [ ""x y"" , 4294967296,	00 , ""abc"", """ ++ [233]%N ++ runes_of_ascii "t" ++ [233]%N ++ runes_of_ascii """	] :  Logon,}
+    ,
+}packet leftPad  {@leftPad
+( ) match
+    A as u {
+    ""packet"" : a1
+    , // packet A { u8 x, }
+} ,stringy { match o  as int
+{ [ // " ++ [128512]%N ++ runes_of_ascii " emoji
+00, 4294967296 , ""it's""
+, 1 // trailing space 
+, 3 ,"""" ] : A
+    007 :// c
+uint8x,} , a1 f32a,	} ,asx
+    // packet A { u8 x, }
+    As, } 	 ")).
+Eval vm_compute in ("<<<M80>>>" ++ check (runes_of_ascii "// " ++ [27880; 37322]%N ++ runes_of_ascii "
+MetaData x_y_z {zchar[  65535 ]
+len
+//x
+// " ++ [27880; 37322]%N ++ runes_of_ascii "
+`// not a comment`
+// " ++ [27880; 37322]%N ++ runes_of_ascii "
+//x
+,u16 zchar `
+`
+,}
+packet matchKey { }
+packet
+    // 50% %s
+    int  {
+@leftPad(
+'0' )f32a//
+,
+@calculatedFrom( ""abc"" ) match len as BodyLength{7 : Logon,10
+:
+    x
+    //	t
+    } ,
+@calculatedFrom(
+    ""{,}"" /// triple
+) match chars	as Packet {
+//
+// c
+0123456789 : Pad 0123456789 : falsey [ 4294967296
+,	3 , 4294967296
+    ,
+0 // a // b
+, ""1"" ] : roots ,
+""a\\"" :
+_x 3 :
+    packetx} ,
+string  u128 @lengthOf( roots )
+, }
+// packet A { u8 x, }
+")).
+Eval vm_compute in ("<<<M449>>>" ++ check (runes_of_ascii "root
+    packet	u128 {  @calculatedFrom(
 //	t
 //
-, @tag( // " ++ [27880; 37322]%N ++ runes_of_ascii "
-65535	) repeat
-    tag { a1 @calculatedFrom( ""a\""b"" )	, }
-,
-As
-    {
-    char[ //	t
-007 ] lengthOf , char[]x @lengthOf(crc )`` ,  repeat
-i8
-    matchKey , tag Z9_ , } ,repeat
-// c
-/// triple
-uint64
-zchar
-    // packet A { u8 x, }
-    `doc` ,	@tag(255
-)repeat zchar[ 7 ]lengthOf
-, }")).
-Eval vm_compute in ("<<<M1755>>>" ++ check (runes_of_ascii "// " ++ [27880; 37322]%N ++ runes_of_ascii "
-packet tag {
-    repeat i64_ {
-        zchar[007] Logon @calculatedFrom(""packet""),
-        repeat char[] leftPad `a\`,
-        zchar[3] float,
-    },
-}
-
-packet pack {
-    repeat i8 len `
-        `,
-}
-
-root packet uint8x {
-    // packet A { u8 x, }
-    @leftPad()
-    @calculatedFrom(""a\\"")
-    @rightPad('\x00')
-    repeat char[0] T,
-}//	t")).
-Eval vm_compute in ("<<<M283>>>" ++ check (runes_of_ascii "root packet
-    i64_ {@tag(4294967296) match lengthOf as // " ++ [27880; 37322]%N ++ runes_of_ascii "
-charz	{ 1 :
-T , } ,repeat char[ 00]
-MetaDataX //x
-,
-match // @lengthOf(
-Foo as
-    chars{ // `tick` ""quote"" 'q'
-""" ++ [28040; 24687]%N ++ runes_of_ascii """:charz
-, } ,} root packet MetaDataX {
-@lengthOf( chars// " ++ [128512]%N ++ runes_of_ascii " emoji
+""\" ++ [233]%N ++ runes_of_ascii """
 )
-uint16 Foo , Foo ,
-    } packet zchar { // trailing space 
-}")).
-Eval vm_compute in ("<<<M236>>>" ++ check (runes_of_ascii "root packet
-    x_y_z{ match lengthOf
-as // `tick` ""quote"" 'q'
-rootA { 42 :
-    asx } ,	@rightPad(
-' ' ) repeat u16 int`// not a comment`, @tag(42	)rootA string_, int32 lengthOf // trailing space 
-,match
-    As as falsey { [ ""// no comment"" ] :
-    calculatedFrom,
-    } , }
-")).
-Eval vm_compute in ("<<<M1615>>>" ++ check (runes_of_ascii "packet
-
-Inner { 
-u8 a  
-  // c4
-,
-
-// c5
-
-	} 
-	// c6
-		root // c7a
-	  // c7b
-      packet // c8a
-	// c8b
-  P 	 // c9a
-	// c9b
+    // " ++ [128512]%N ++ runes_of_ascii " emoji
+    u8x	i8i8	, @lengthOf( float
+    // @lengthOf(
+    ) i8i8	, @rightPad
+( '0' ) // " ++ [27880; 37322]%N ++ runes_of_ascii "
+u64 Logon @calculatedFrom( ""CRC32"") , zchar ,
+    }	packet A
     {
-    // c10
-
-repeat	Inner
-    items
-
-    , 
-
-    // c14
-	u8	// c15
-  	x
-        // c16
-	, 	 // c17
-	} ")).
-Eval vm_compute in ("<<<M577>>>" ++ check (runes_of_ascii "options
-{
-matchKey = 42/// triple
-x='0' ;
-// packet A { u8 x, }
-//
-charz
-=
-// packet A { u8 x, }
-// traili@leftpadng space 
-true  ; } MetaData BodyLength
-{
-uint8
-pack,zchar[ 1]float ,  float32 x_y_z `` ,u32
-_x,i16 body  , }
+@calculatedFrom(
+""\" ++ [233]%N ++ runes_of_ascii """ )
+match
+// a // b
+// `tick` ""quote"" 'q'
+matchKey as Header {0: zchar	0123456789 : stringy }
+, @calculatedFrom( ""a\""b"" ) match
+pack	as lengthOf	{ 0
+:// 50% %s
+int
+    , 0123456789 :leftPad """" : trueish, 4294967296: u /// triple
+, } , Packet `tab	here` , }
 ")).
-Eval vm_compute in ("<<<M414>>>" ++ check (runes_of_ascii "options
-{
-matchKey = 42/// triple
-root='0' ;
-// packet A { u8 x, }
-//
-charz
-=
-// packet A { u8 x, }
-// trailing space 
-true  ; } MetaData BodyLength
-{
-uint8
-pack,zchar[ 1]float ,  float32 x_y_z `` ,u32
-_x,i16 body  , }
-")).
-Eval vm_compute in ("<<<M581>>>" ++ check (runes_of_ascii "options''
-{
-matchKey = 42/// triple
-x='0' ;
-// packet A { u8 x, }
-//
-charz
-=
-// packet A { u8 x, }
-// trailing space 
-true  ; } MetaData BodyLength
-{
-uint8
-pack,zchar[ 1]float ,  float32 x_y_z `` ,u32
-_x,i16 body  , }
-")).
-Eval vm_compute in ("<<<M443>>>" ++ check (runes_of_ascii "options
-{
-matchKey = 42/// triple
-x='0' ;
-// packet A { u8 x, }
-//
-charz
-=
-// packet A { u8 x, }
-// trailing space 
-;  true } MetaData BodyLength
-{
-uint8
-pack,zchar[ 1]float ,  float32 x_y_z `` ,u32
-_x,i16 body  , }
-")).
-Eval vm_compute in ("<<<M451>>>" ++ check (runes_of_ascii "options
-{
-matchKey = 42/// triple
-x='0' ;
-// packet A { u8 x, }
-//
-charz
-=
-// packet A { u8 x, }
-// trailing space 
-true  ;  MetaData BodyLength
-{
-uint8
-pack,zchar[ 1]float ,  float32 x_y_z `` ,u32
-_x,i16 body  , }
-")).
-Eval vm_compute in ("<<<M516>>>" ++ check (runes_of_ascii "options
-{
-matchKey = 42/// triple
-x='0' ;
-// packet A { u8 x, }
-//
-charz
-=
-// packet A { u8 x, }
-// trailing space 
-true  ; } MetaData BodyLength
-{
-uint8
-pack,zchar[ 1]float ,  float32  `` ,u32
-_x,i16 body  , }
-")).
-Eval vm_compute in ("<<<M1736>>>" ++ check (runes_of_ascii "// c
-packet i64_ {
-    calculatedFrom,
-}
-
-packet trueish {
-    @calculatedFrom(""a\\"")
-    o {
-        i32 falsey @lengthOf(uint8x),
-    },
-}// `tick` ""quote"" 'q'
-
-options {
+Eval vm_compute in ("<<<M966>>>" ++ check (runes_of_ascii "//x
+packet // `tick` ""quote"" 'q'
+Packet {
     // c
-    Z9_ = ' '//
+    @tag( 3
+    )repeatCount {
+    u64 o
+    @calculatedFrom(""" ++ [28040; 24687]%N ++ runes_of_ascii """ )
+    // a // b
+    `
+` ,
+len
+    // a // b
+    `
+` ,} ,  } MetaData stringy{ }MetaData tag  { float32 chars `doc`, // c
+}root packet  Packet {
+    @leftPad ('\x00'
+) repeat rootA T `100% of %d` , // packet A { u8 x, }
+@leftPad
+(
+)
+i64 leftPad @calculatedFrom( ""packet"" )
+,repeat Packet crc ,
+}  MetaData Header { i32 //x
+leftPad
+    , // packet A { u8 x, }
 }")).
-Eval vm_compute in ("<<<M667>>>" ++ check (runes_of_ascii "// c
-packet i64_ {	char[] calculatedFrom , } packet
-trueish  {@calculatedFrom(
-""a\\"" ) o zchar[ i32 falsey@lengthOf( uint8x ),
-} , } // `tick` ""quote"" 'q'
-options {// c
-Z9_ = ' '//
-}
-")).
-Eval vm_compute in ("<<<M669>>>" ++ check (runes_of_ascii "// c
-packet i64_ {	char[] calculatedFrom , packet }
-trueish  {@calculatedFrom(
-""a\\"" ) o { i32 falsey@lengthOf( uint8x ),
-} , } // `tick` ""quote"" 'q'
-options {// c
-Z9_ = ' '//
-}
-")).
-Eval vm_compute in ("<<<M510>>>" ++ check (runes_of_ascii "options
-{
-matchKey = 42/// triple
-x='0' ;
-// packet A { u8 x, }
-//
-charz
-=
-// packet A { u8 x, }
-// trailing space 
-true  ; } MetaData BodyLength
-{
-uint8
-pack,zchar[ 1]float")).
-Eval vm_compute in ("<<<M1387>>>" ++ check (runes_of_ascii "
-packet
-    A
+Eval vm_compute in ("<<<M508>>>" ++ check (runes_of_ascii "packet MetaDataX { T
+u128 `it's` ,
+uint32
+    options1 @calculatedFrom(""abc""
+    ) `" ++ [233]%N ++ runes_of_ascii "`, rootA
+    @calculatedFrom(
+""" ++ [233]%N ++ runes_of_ascii "t" ++ [233]%N ++ runes_of_ascii """
+)
+,  repeat
+Logon
+{ match a1  as _x {	[ """"
+    , ""abc"" , ""1""
+,10 , 1 //	t
+]
+    : i64_ , [ // " ++ [128512]%N ++ runes_of_ascii " emoji
+""a\\"" ,
+""" ++ [233]%N ++ runes_of_ascii "t" ++ [233]%N ++ runes_of_ascii """ ,""CRC32"" , 10, // `tick` ""quote"" 'q'
+""""
+    ,	65535 , 255 , // @lengthOf(
+007
+    ] : pack , }
+    ,int32 packetx @calculatedFrom(""a\""b"" ) `" ++ [28040; 24687; 31867; 22411]%N ++ runes_of_ascii "` ,char[
+7]falsey , msg_type f32a  `" ++ [28040; 24687; 31867; 22411]%N ++ runes_of_ascii "` , } , repeat body
+`
+` , } 	 ")).
+Eval vm_compute in ("<<<M3946>>>" ++ check (runes_of_ascii "//	t
+packet uint8x
 
-{u8
-a
+    { match
+// c
+  lengthOf  as	// 50% %s
+    int  {
 
-    ,}
+[
 
-packet
-B
+""x y""
+    , 
+00 ]
+:	metadata
 
-{u16 
-b
-,
-    }
-
-    root
-    packet
-P	{
-u8 K
-,match
-	K  as 
-M
-
-    {
-	1 :  A  ,	1
+    00
 
     :
-    B ,
-	}
-
-    ,
-
-}")).
-Eval vm_compute in ("<<<M55>>>" ++ check (runes_of_ascii "
-packet Foo
-    {
-    repeat
-int
-    //x
-    { string u @calculatedFrom( ""packet"")	`` // @lengthOf(
-,}
-,zchar[ 007 ]  A
-    `doc`, }
-options { }")).
-Eval vm_compute in ("<<<M1493>>>" ++ check (runes_of_ascii "packet A {
-    Inner {
-        u8 x `
-                `,
-        Deep {
-            u8 y `
-                        `,
-        },
-    },
-}")).
-Eval vm_compute in ("<<<M1699>>>" ++ check (runes_of_ascii "
-packet
-
-    Logon
-{  @tag(	42
-
-    ) @rightPad (
-' '	)
-	@leftPad 
-    // c
-  	() 
-repeat	trueish { string
-T 
+	lengthOf	// 50% %s
+""a\""b""
+:
+trueish, 	 // `tick` ""quote"" 'q'
+	[
+    ""abc"" ] 
+:
+_x ""`tick`"":
+    Packet
 ,
 
-    }	, }
-")).
-Eval vm_compute in ("<<<M685>>>" ++ check (runes_of_ascii "// c
-packet i64_ {	char[] calculatedFrom , } packet
-trueish  {@calculatedFrom(
-""a\\"" ) o { i32 falsey@lengthOf( uint8x ),
-}")).
-Eval vm_compute in ("<<<M2033>>>" ++ check (runes_of_ascii "
-packet
-	A 
-{
-match
+    42
 
-k as n{[
-	""a"",
-
-22
-
-,""c c""
-	, 4
-	,	""e"" ,66
-
+    :  int ,	//x
+  }
 ,
-""g"" ,
-    8
-    ,
-	""i"" ]: B ,2	:
-    C
-	}
 
-    , }")).
-Eval vm_compute in ("<<<M1920>>>" ++ check (runes_of_ascii "
-packet Logon 
-// c
-  { 
-@tag( 42) @rightPad
-(
-	' ' )
-@leftPad  (	) repeat
-	trueish
-{
+@calculatedFrom(  """ ++ [28040; 24687]%N ++ runes_of_ascii """
+	)
 
-    string
-    T ,}
-,  } ")).
-Eval vm_compute in ("<<<M358>>>" ++ check (runes_of_ascii "MetaData Packet { u128  u128 `say ""hi""` ,
-    // @lengthOf(
-    zchar
-    len ,
-Pad T `say ""hi""` // " ++ [128512]%N ++ runes_of_ascii " emoji
-,
-}
+f64
+
+metadata 	 // a // b
+@lengthOf(
+	calculatedFrom )
+,}options
+
+    {  }
+    packet	zchar {
+
+Foo`crlf
+line`// @lengthOf(
+
+  ,  }
 ")).
-Eval vm_compute in ("<<<M674>>>" ++ check (runes_of_ascii "// c
-packet i64_ {	char[] calculatedFrom , } packet
-trueish  {@calculatedFrom(
-""a\\"" ) o { i32 falsey@lengthOf(")).
-Eval vm_compute in ("<<<M961>>>" ++ check (runes_of_ascii "packet A {
-    Inner {
-        u8 x `tab
-	x`,
-        Deep {
-            u8 y `tab
-	x`,
-        },
-    },
-}")).
-Eval vm_compute in ("<<<M1253>>>" ++ check (runes_of_ascii "packet // c
-calculatedFrom { @tag( 4294967296 ) u msg_type , char[ 3 ] crc @lengthOf( len ) `u8 x,` , }")).
-Eval vm_compute in ("<<<M1285>>>" ++ check (runes_of_ascii "packet calculatedFrom { @tag( 4294967296 ) u msg_type , char[ 3 ] crc @lengthOf( len ) `u8 x,` // c
-, }")).
-Eval vm_compute in ("<<<M884>>>" ++ check (runes_of_ascii "packet A {
-  match k as n {
-    [""a"", 22, ""c c"", 4, ""e"", 66, ""g"", 8, ""i"", 10] : B
-    2 : C
-  },
-}")).
-Eval vm_compute in ("<<<M1131>>>" ++ check (runes_of_ascii "packet
-// c
-Logon { @tag( 42 ) @rightPad ( ' ' ) @leftPad ( ) repeat trueish { string T , } , }")).
-Eval vm_compute in ("<<<M1163>>>" ++ check (runes_of_ascii "packet Logon { @tag( 42 ) @rightPad ( ' ' ) @leftPad ( ) repeat trueish { string
-// c
-T , } , }")).
-Eval vm_compute in ("<<<M1918>>>" ++ check (runes_of_ascii "
-MetaData Z9_{
-a1 
-
-    //
-	/// triple
-	Z9_,zchar[
-
-10
-	]
-
-    x
-    ,  } options {
-
-}
-")).
-Eval vm_compute in ("<<<M1740>>>" ++ check (runes_of_ascii "  packet
-A
-	{
-@leftPad
-	(
-
-    )char[
-	4
-]	x
-,
-@rightPad
-( )
-zchar[ 2 ]y
-,
-    }
-
-")).
-Eval vm_compute in ("<<<M1391>>>" ++ check (runes_of_ascii "packet order_item {
-    u8 a,
-}
-root packet new_order {
-    order_item,
-    u8 x,
-}
-")).
-Eval vm_compute in ("<<<M1214>>>" ++ check (runes_of_ascii "packet o { @tag( // c
-42 ) repeat x { char[ 0123456789 ] i64_ , } , } options { }")).
-Eval vm_compute in ("<<<M1394>>>" ++ check (runes_of_ascii "packet orderItem {
-    u8 a,
-}
-root packet newOrder {
-    orderItem,
-    u8 x,
-}
-")).
-Eval vm_compute in ("<<<M834>>>" ++ check (runes_of_ascii "packet A {
-  match k as n {
-    [1, 22, ""c c"", 4, 5, ""f""] : B
-    2 : C
-  },
-}")).
-Eval vm_compute in ("<<<M810>>>" ++ check (runes_of_ascii "packet A {
-  match k as n {
-    [""a"", ""bb"", 007, ""d""] : B
-    2 : C
-  },
-}")).
-Eval vm_compute in ("<<<M1308>>>" ++ check (runes_of_ascii "
-// c
-MetaData _x { zchar[ 4294967296 ] lengthOf `// not a comment` , }")).
-Eval vm_compute in ("<<<M1864>>>" ++ check (runes_of_ascii "MetaData u8x {
-    uint32 i8i8 `it's`,
-}
-
-options {
-    Logon = '0';
-}")).
-Eval vm_compute in ("<<<M787>>>" ++ check (runes_of_ascii "packet A {
-  match k as n {
-    [1, 22, 007] : B
-    2 : C
-  },
-}")).
-Eval vm_compute in ("<<<M1334>>>" ++ check (runes_of_ascii "root  packet
-
-    P
-
-    {
+Eval vm_compute in ("<<<M1037>>>" ++ check (runes_of_ascii "
+root
+packet body {	uint32 BodyLength , @calculatedFrom( ""abc"")
+float64
+metadata @calculatedFrom( """ ++ [28040; 24687]%N ++ runes_of_ascii """
+)//	t
+,char[
+// @lengthOf(
+/// triple
+7 // 50% %s
+] //	t
+falsey ,
+zchar[
+    // trailing space 
+    65535 ] leftPad  @calculatedFrom( ""`tick`""
+) ,
 repeat
-char cs  ,
-u8
-x  ,
-} ")).
-Eval vm_compute in ("<<<M739>>>" ++ check (runes_of_ascii "as trueish match @calculatedFrom( @rightPad false [ i64")).
-Eval vm_compute in ("<<<M920>>>" ++ check (runes_of_ascii "MetaData M {
-    u8 x `a
-b`,
-    T t `a
-b`,
-}")).
-Eval vm_compute in ("<<<M1106>>>" ++ check (runes_of_ascii "MetaData zchar // c
-{ zchar[ 3 ] Pad , }")).
-Eval vm_compute in ("<<<M1095>>>" ++ check (runes_of_ascii "packet A { u8 x,// a
-
-
-// b
-
- u8 y, }")).
-Eval vm_compute in ("<<<M951>>>" ++ check (runes_of_ascii "root packet A {
-    u8 x `x
-`,
-}")).
-Eval vm_compute in ("<<<M997>>>" ++ check (runes_of_ascii "packet A {
- u8 x `d" ++ [5760]%N ++ runes_of_ascii "`, // c" ++ [5760]%N ++ runes_of_ascii "
-}")).
-Eval vm_compute in ("<<<M1064>>>" ++ check (runes_of_ascii "packet A {
-}// a// b// c
+string  T
+`it's` ,@lengthOf( packetx
+    )
+Logon @calculatedFrom(""\" ++ [233]%N ++ runes_of_ascii """ ) `" ++ [233]%N ++ runes_of_ascii "`//x
+, } options {
+int=	false Logon = 10 f32a =true ;
+    uint8x= ' ' /// triple
+; } //")).
+Eval vm_compute in ("<<<M295>>>" ++ check (runes_of_ascii "packet
+BodyLength
+{ zchar[ 7] leftPad
+,@tag( 0123456789  ) @calculatedFrom(  ""`tick`""
+    ) Foo T
+    , zchar[ 00 ] charz @lengthOf( // trailing space 
+tag ) , @lengthOf(
+zchar
+    // " ++ [128512]%N ++ runes_of_ascii " emoji
+    ) char[65535]
+u128 @lengthOf(	rootA )  ,
+//x
+// 50% %s
+int64
+    Header// c
+,
+    // packet A { u8 x, }
+    @calculatedFrom(
+    ""\n""
+// @lengthOf(
+// " ++ [27880; 37322]%N ++ runes_of_ascii "
+) match
+leftPad  as
+    pack {4294967296  : options1 } ,  }")).
+Eval vm_compute in ("<<<M1364>>>" ++ check (runes_of_ascii "MetaData x
+    {
+msg_type Z9_ ,
+leftPad int `{ , }`// " ++ [27880; 37322]%N ++ runes_of_ascii "
+,
+char[ 007 ] asx `tab	here`
+    ,	crc rootA `doc`, trueish _x `two words` ,} root packet body { @lengthOf(
+rootA )
+repeat char[ 7]metadata
+,match
+    charz as stringy
+{ 42 :rootA 0123456789// trailing space 
+:
+tag
+    0 /// triple
+: i64_ ,[ ""1""  ] : matchKey // 50% %s
+,
+    ""// no comment"":
+    body }
+//x
+// packet A { u8 x, }
+,}
 ")).
-Eval vm_compute in ("<<<M1194>>>" ++ check (runes_of_ascii "options { u8x = 3
+Eval vm_compute in ("<<<M111>>>" ++ check (runes_of_ascii "packet  f32a { // packet A { u8 x, }
+repeat
+int ,repeat repeatCount { u32 charz @calculatedFrom(""abc"" ) ,
+    } ,
+}MetaData
+    // packet A { u8 x, }
+    chars // 50% %s
+{
+    // 50% %s
+    int64  float	`line1
+line2`, len T
+    `doc`,char[] Packet`tab	here` ,	zchar[10]
 // c
-}")).
-Eval vm_compute in ("<<<M1577>>>" ++ check (runes_of_ascii "packet A {
-}// a// b")).
-Eval vm_compute in ("<<<M1015>>>" ++ check (runes_of_ascii "packet A {
+// " ++ [27880; 37322]%N ++ runes_of_ascii "
+a1 , repeatCount A , u16 uint8x
+// `tick` ""quote"" 'q'
+// packet A { u8 x, }
+`line1
+line2` , }
+")).
+Eval vm_compute in ("<<<M4486>>>" ++ check (runes_of_ascii "MetaData body {
+    pack MetaDataX,
 }
-// c" ++ [8233]%N)).
-Eval vm_compute in ("<<<M1003>>>" ++ check (runes_of_ascii "packet A {
-}// c" ++ [8202]%N)).
-Eval vm_compute in ("<<<M740>>>" ++ check (runes_of_ascii "6" ++ [65533; 65533; 65533]%N ++ runes_of_ascii "Z%" ++ [65533; 65533; 65533]%N ++ runes_of_ascii "" ++ [65533]%N)).
-Eval vm_compute in ("<<<M1034>>>" ++ check (runes_of_ascii "// c" ++ [12]%N)).
+
+packet x_y_z {
+    @rightPad()
+    @calculatedFrom(""packet"")
+    @lengthOf(chars)
+    uint32 As,
+    @calculatedFrom(""{,}"")
+    trueish,
+    @tag(007)
+    match Pad as zchar {
+        255 : string_,
+        [""`tick`"", """ ++ [233]%N ++ runes_of_ascii "t" ++ [233]%N ++ runes_of_ascii """, 0123456789, 00] : crc,
+        // @lengthOf(
+        [255, 10, 0123456789, ""abc""] : Packet,
+    },
+}")).
+Eval vm_compute in ("<<<M1043>>>" ++ check (runes_of_ascii "// " ++ [27880; 37322]%N ++ runes_of_ascii "
+root packet Pad {
+@lengthOf(calculatedFrom ) string crc , repeat
+uint32 string_
+    , repeat char[
+0123456789 ] As `" ++ [28040; 24687; 31867; 22411]%N ++ runes_of_ascii "` , // @lengthOf(
+@calculatedFrom( ""\" ++ [233]%N ++ runes_of_ascii """
+) Logon
+, @lengthOf(
+    chars ) u16 int  @calculatedFrom( """ ++ [233]%N ++ runes_of_ascii "t" ++ [233]%N ++ runes_of_ascii """ ) , zchar[ 4294967296] body ,
+repeat int64
+    int `doc`,uint8 Packet ,@tag( 1 )
+    float32 matchKey //	t
+`" ++ [233]%N ++ runes_of_ascii "`
+,}")).
+Eval vm_compute in ("<<<M832>>>" ++ check (runes_of_ascii "
+options{Header= ' ';
+u128 = 42
+;
+    // " ++ [128512]%N ++ runes_of_ascii " emoji
+    } options
+{ T
+= ""\" ++ [233]%N ++ runes_of_ascii """ BodyLength = 0123456789 Z9_
+=
+    /// triple
+    string
+;
+leftPad =
+// " ++ [128512]%N ++ runes_of_ascii " emoji
+//
+255 ; x=  ' '
+/// triple
+// `tick` ""quote"" 'q'
+; // " ++ [27880; 37322]%N ++ runes_of_ascii "
+} packet Header
+    {
+}	root packet	T{ @lengthOf( calculatedFrom )float64 Z9_ @calculatedFrom(
+    """ ++ [28040; 24687]%N ++ runes_of_ascii """
+    )
+    , }")).
+Eval vm_compute in ("<<<M3310>>>" ++ check (runes_of_ascii "// top
+options // c0
+{ // c1
+u // c2
+= // c3
+00 // c4
+stringy // c5
+= // c6
+'0' // c7
+} // c8
+packet // c9
+stringy // c10
+{ // c11
+} // c12
+MetaData // c13
+repeatCount // c14
+{ // c15
+MetaDataX // c16
+leftPad // c17
+, // c18
+string // c19
+body // c20
+`
+` // c21
+, // c22
+metadata // c23
+options1 // c24
+, // c25
+} // c26
+")).
+Eval vm_compute in ("<<<M1063>>>" ++ check (runes_of_ascii "//
+root
+    packet
+Z9_ { @tag(	10)u32 A  @lengthOf( body )
+, @leftPad ()zchar[3
+]	matchKey,  repeat lengthOf { u8
+    asx // a // b
+`two words` , } ,@tag(0123456789  ) repeat
+    //
+    char[ 42  ]rootA `say ""hi""` , stringy
+    `line1
+line2`
+, @leftPad // @lengthOf(
+( ' '  )
+    repeat
+    i32 trueish , }")).
+Eval vm_compute in ("<<<M157>>>" ++ check (runes_of_ascii "root packet u
+{
+    // c
+    @lengthOf( falsey ) @leftPad
+(
+    '\x00' )	@tag(65535
+    )	char[ 007] A @calculatedFrom(""a\\"" ),} packet
+x_y_z {repeat i64 tag , } root	packet
+    crc { @rightPad
+( )
+calculatedFrom @calculatedFrom( """ ++ [128512]%N ++ runes_of_ascii """ ) ,
+uint32 rootA @lengthOf(msg_type	) `// not a comment`	, }")).
+Eval vm_compute in ("<<<M1962>>>" ++ check (runes_of_ascii "packet	packetx { // trailing space 
+x_y_z
+{
+string
+charz ,
+string x// @lengthOf(
+`two words`
+    ,  u8x { // `tick` ""quote"" 'q'
+charz `100% of %d` // packet A { u8 x, }
+,}// " ++ [27880; 37322]%N ++ runes_of_ascii "
+,} , }
+    // a // b
+    packet metadata metadata {  @leftPad ( '0') repeat i32 options1 ,u64 uint8x , }
+")).
+Eval vm_compute in ("<<<M1284>>>" ++ check (runes_of_ascii "options
+{msg_type
+    /// triple
+    = char[  42]
+; Logon =
+    //	t
+    false ; // c
+lengthOf =	""" ++ [233]%N ++ runes_of_ascii "t" ++ [233]%N ++ runes_of_ascii """
+;	u128=  int8	}
+packet Logon  { pack options1 `tab	here` , } options {  } packet
+body
+{ Pad  @calculatedFrom(
+""// no comment""
+//x
+/// triple
+) , Packet ,
+} // packet A { u8 x, }")).
+Eval vm_compute in ("<<<M1942>>>" ++ check (runes_of_ascii "packet	packetx { // trailing space 
+x_y_z
+{
+string
+charz ,
+string x// @lengthOf(
+`two words`
+    ,  u8x { // `tick` ""quote"" 'q'
+charz `100% of %d` // packet A { u8 x, }
+,}// " ++ [27880; 37322]%N ++ runes_of_ascii "
+,} } , }
+    // a // b
+    packet metadata {  @leftPad ( '0') repeat i32 options1 ,u64 uint8x , }
+")).
+Eval vm_compute in ("<<<M1883>>>" ++ check (runes_of_ascii "packet	packetx { // trailing space 
+x_y_z
+{
+string
+charz string
+, x// @lengthOf(
+`two words`
+    ,  u8x { // `tick` ""quote"" 'q'
+charz `100% of %d` // packet A { u8 x, }
+,}// " ++ [27880; 37322]%N ++ runes_of_ascii "
+,} , }
+    // a // b
+    packet metadata {  @leftPad ( '0') repeat i32 options1 ,u64 uint8x , }
+")).
+Eval vm_compute in ("<<<M2050>>>" ++ check (runes_of_ascii "packet	packetx { // trailing space 
+x_y_z
+{
+string
+charz ,
+string x// @lengthOf(
+`two words`
+    ,  u8x { // `tick` ""quote"" 'q'
+charz `100% of %d` // packet A { u8 x, }
+,}// " ++ [27880; 37322]%N ++ runes_of_ascii "
+,} , }
+    // a // b
+    packet metadata {  @leftPad ( '0') repeat i32 options1 ,u64 caf" ++ [233]%N ++ runes_of_ascii "_1 , }
+")).
+Eval vm_compute in ("<<<M1874>>>" ++ check (runes_of_ascii "packet	packetx { // trailing space 
+x_y_z
+{
+i32
+charz ,
+string x// @lengthOf(
+`two words`
+    ,  u8x { // `tick` ""quote"" 'q'
+charz `100% of %d` // packet A { u8 x, }
+,}// " ++ [27880; 37322]%N ++ runes_of_ascii "
+,} , }
+    // a // b
+    packet metadata {  @leftPad ( '0') repeat i32 options1 ,u64 uint8x , }
+")).
+Eval vm_compute in ("<<<M1956>>>" ++ check (runes_of_ascii "packet	packetx { // trailing space 
+x_y_z
+{
+string
+charz ,
+string x// @lengthOf(
+`two words`
+    ,  u8x { // `tick` ""quote"" 'q'
+charz `100% of %d` // packet A { u8 x, }
+,}// " ++ [27880; 37322]%N ++ runes_of_ascii "
+,} , }
+    // a // b
+     metadata {  @leftPad ( '0') repeat i32 options1 ,u64 uint8x , }
+")).
+Eval vm_compute in ("<<<M1152>>>" ++ check (runes_of_ascii "options { repeatCount	= ""// no comment"" ; _x =u32 ;zchar = char } //x
+root packet chars
+{u16
+    Pad@lengthOf(rootA
+    // a // b
+    )
+    `u8 x,`
+    , int16 u8x @calculatedFrom( ""it's""	) , } MetaData
+    // " ++ [27880; 37322]%N ++ runes_of_ascii "
+    As
+    { char[] x ,string A `line1
+line2`
+,
+    }")).
+Eval vm_compute in ("<<<M2167>>>" ++ check (runes_of_ascii "packet// packet A { u8 x, }
+repeatCount	{// packet A { u8 x, }
+@leftPad ( '\x00'
+) repeat u8x MetaDataX `crlf
+line`,
+    repeat
+    char[] MetaDataX
+    ,
+u64	uint8x@calculatedFrom(""a\""b""
+// c
+// packet A { u8 x, }
+) `tab	here`
+,//
+char[MetaData pack
+    {
+    }
+")).
+Eval vm_compute in ("<<<M2205>>>" ++ check (runes_of_ascii "packet// packet A { u8 x, }
+repeatCount	{// packet A { u8 x, }
+@leftPad ( '\x00'
+) repeat u8x MetaDataX `crlf
+line`,
+    repeat
+    char[] MetaDataX
+    ,
+u64	uint8x$ @calculatedFrom(""a\""b""
+// c
+// packet A { u8 x, }
+) `tab	here`
+,//
+}MetaData pack
+    {
+    }
+")).
+Eval vm_compute in ("<<<M2091>>>" ++ check (runes_of_ascii "packet// packet A { u8 x, }
+repeatCount	{// packet A { u8 x, }
+@leftPad ( '\x00'
+) repeat MetaDataX u8x `crlf
+line`,
+    repeat
+    char[] MetaDataX
+    ,
+u64	uint8x@calculatedFrom(""a\""b""
+// c
+// packet A { u8 x, }
+) `tab	here`
+,//
+}MetaData pack
+    {
+    }
+")).
+Eval vm_compute in ("<<<M2164>>>" ++ check (runes_of_ascii "packet// packet A { u8 x, }
+repeatCount	{// packet A { u8 x, }
+@leftPad ( '\x00'
+) repeat u8x MetaDataX `crlf
+line`,
+    repeat
+    char[] MetaDataX
+    ,
+u64	uint8x@calculatedFrom(""a\""b""
+// c
+// packet A { u8 x, }
+) `tab	here`
+,//
+MetaData pack
+    {
+    }
+")).
+Eval vm_compute in ("<<<M1544>>>" ++ check (runes_of_ascii "packet calculatedFrom
+{ @calculatedFrom( ""a\\"" ) zchar[ 4294967296 ]
+calculatedFrom@lengthOf( pack )	`100% of %d` ,char[]body@calculatedFrom( ""// no comment"" )  ,
+@tag( 007) //x
+int8
+leftPad`it's` `it's` , repeat pack
+    { repeat char[ 3] body
+,},
+}")).
+Eval vm_compute in ("<<<M2005>>>" ++ check (runes_of_ascii "packet	packetx { // trailing space 
+x_y_z
+{
+string
+charz ,
+string x// @lengthOf(
+`two words`
+    ,  u8x { // `tick` ""quote"" 'q'
+charz `100% of %d` // packet A { u8 x, }
+,}// " ++ [27880; 37322]%N ++ runes_of_ascii "
+,} , }
+    // a // b
+    packet metadata {  @leftPad ( '0') repeat i32")).
+Eval vm_compute in ("<<<M1529>>>" ++ check (runes_of_ascii "packet calculatedFrom
+{ @calculatedFrom( ""a\\"" ) zchar[ 4294967296 ]
+calculatedFrom@lengthOf( pack )	`100% of %d` ,char[]body@calculatedFrom( ""// no comment"" )  ,
+@tag( 007) ) //x
+int8
+leftPad`it's` , repeat pack
+    { repeat char[ 3] body
+,},
+}")).
+Eval vm_compute in ("<<<M1626>>>" ++ check (runes_of_ascii "packet calculatedFrom
+{ @calculatedFrom( ""a\\"" ) zchar[ 4294967296 ]
+calculatedFrom@lengthOf( pack )	`100% of %d` ,char[]body@calculatedFrom( ""// no comment"" )  ,
+@tag( 007) //x
+int8
+leftPad`it's` , repeat pack
+    { repeat char[ 3""] body
+,},
+}")).
+Eval vm_compute in ("<<<M1510>>>" ++ check (runes_of_ascii "packet calculatedFrom
+{ @calculatedFrom( ""a\\"" ) zchar[ 4294967296 ]
+calculatedFrom@lengthOf( pack )	`100% of %d` ,char[]body@calculatedFrom( ""// no comment"" ,  )
+@tag( 007) //x
+int8
+leftPad`it's` , repeat pack
+    { repeat char[ 3] body
+,},
+}")).
+Eval vm_compute in ("<<<M1548>>>" ++ check (runes_of_ascii "packet calculatedFrom
+{ @calculatedFrom( ""a\\"" ) zchar[ 4294967296 ]
+calculatedFrom@lengthOf( pack )	`100% of %d` ,char[]body@calculatedFrom( ""// no comment"" )  ,
+@tag( 007) //x
+int8
+leftPad`it's`  repeat pack
+    { repeat char[ 3] body
+,},
+}")).
+Eval vm_compute in ("<<<M782>>>" ++ check (runes_of_ascii "packet falsey { _x, @calculatedFrom(// trailing space 
+""" ++ [128512]%N ++ runes_of_ascii """ ) // " ++ [27880; 37322]%N ++ runes_of_ascii "
+int32 T
+    , // c
+i64 trueish
+, uint64 Logon
+    `doc` , } packet len	{  }
+MetaData// c
+x{
+stringy
+// 50% %s
+// c
+msg_type
+,
+// packet A { u8 x, }
+// packet A { u8 x, }
+}
+")).
+Eval vm_compute in ("<<<M1448>>>" ++ check (runes_of_ascii "packet calculatedFrom
+{ @calculatedFrom( ""a\\"" ) zchar[  ]
+calculatedFrom@lengthOf( pack )	`100% of %d` ,char[]body@calculatedFrom( ""// no comment"" )  ,
+@tag( 007) //x
+int8
+leftPad`it's` , repeat pack
+    { repeat char[ 3] body
+,},
+}")).
+Eval vm_compute in ("<<<M2163>>>" ++ check (runes_of_ascii "packet// packet A { u8 x, }
+repeatCount	{// packet A { u8 x, }
+@leftPad ( '\x00'
+) repeat u8x MetaDataX `crlf
+line`,
+    repeat
+    char[] MetaDataX
+    ,
+u64	uint8x@calculatedFrom(""a\""b""
+// c
+// packet A { u8 x, }
+) `tab	here`")).
+Eval vm_compute in ("<<<M4154>>>" ++ check (runes_of_ascii "packet repeatCount {
+    // packet A { u8 x, }
+    @leftPad('\x00')
+    repeat f32 MetaDataX `crlf
+        line`,
+    repeat char[] MetaDataX,
+    u64 uint8x @calculatedFrom(""a\""b"") `tab	here`,//
+}
+
+MetaData pack {
+}")).
+Eval vm_compute in ("<<<M578>>>" ++ check (runes_of_ascii "
+root
+packet lengthOf
+    // @lengthOf(
+    {} options  { zchar =
+    '\x00' crc
+= ""it's""
+u
+= zchar[
+1]
+; //	t
+metadata // c
+= false trueish
+    = // 50% %s
+char[]
+; } options { // `tick` ""quote"" 'q'
+}
+")).
+Eval vm_compute in ("<<<M482>>>" ++ check (runes_of_ascii "
+packet As {} MetaData
+leftPad {}
+MetaData asx {
+    u64 MetaDataX `{ , }`
+    ,char
+Packet, u8x i64_ ,
+    char[] options1 `
+`
+, asx trueish
+    `// not a comment` // a // b
+, string f32a`" ++ [233]%N ++ runes_of_ascii "` ,}
+")).
+Eval vm_compute in ("<<<M618>>>" ++ check (runes_of_ascii "
+packet
+repeatCount {
+} MetaData
+T //x
+{
+float64 rootA `doc`//x
+, // " ++ [128512]%N ++ runes_of_ascii " emoji
+body MetaDataX
+    //
+    ,u32 /// triple
+float , uint32
+T,char[]_x
+    /// triple
+    ,
+    uint32 trueish`" ++ [233]%N ++ runes_of_ascii "` ,}")).
+Eval vm_compute in ("<<<M280>>>" ++ check (runes_of_ascii "
+root
+// packet A { u8 x, }
+// packet A { u8 x, }
+packet len { char[
+42  ]float
+    `// not a comment` ,	} packet lengthOf
+{ } options  {charz = true trueish=
+1
+; stringy=
+' '
+;
+}
+
+")).
+Eval vm_compute in ("<<<M1064>>>" ++ check (runes_of_ascii "
+packet
+    T  {
+    //x
+    char[]Pad `tab	here`
+,
+// 50% %s
+// " ++ [27880; 37322]%N ++ runes_of_ascii "
+@lengthOf(
+//
+// c
+msg_type
+// " ++ [27880; 37322]%N ++ runes_of_ascii "
+//x
+)  @tag( 007 )
+uint8x
+{// " ++ [27880; 37322]%N ++ runes_of_ascii "
+uint8 _x
+,}
+,
+    }options// " ++ [27880; 37322]%N ++ runes_of_ascii "
+{ }
+
+")).
+Eval vm_compute in ("<<<M4386>>>" ++ check (runes_of_ascii "// top
+MetaData float {
+    // c2
+    uint8 BodyLength,// c5
+}// c6
+
+MetaData charz {
+    // c9
+    float32 trueish `a\`,// c13
+    i16 metadata `say ""hi""`,// c17
+}// c18")).
+Eval vm_compute in ("<<<M2386>>>" ++ check (runes_of_ascii "
+packet packet MetaDataX
+{
+    @leftPad
+( // a // b
+'0'
+) i8 u @lengthOf(
+MetaDataX
+    ) `say ""hi""` ,	} MetaData BodyLength {
+    asx
+x_y_z `" ++ [233]%N ++ runes_of_ascii "`
+, uint64 u128 , }
+")).
+Eval vm_compute in ("<<<M4540>>>" ++ check (runes_of_ascii "options {o 
+=
+
+1;rootA
+=	4294967296
+    pack
+= 007  charz  // @lengthOf(
+
+=
+""" ++ [128512]%N ++ runes_of_ascii """
+	}
+options{ 
+repeatCount
+=""it's""	;
+charz
+
+    =1
+; leftPad =
+
+'\x00' }	// " ++ [27880; 37322]%N ++ runes_of_ascii "
+")).
+Eval vm_compute in ("<<<M2381>>>" ++ check (runes_of_ascii "
+packet MetaDataX
+{
+    @leftPad
+( // a // b
+'0'
+) i8 u @lengthOf(
+MetaDataX
+    ) `say ""hi""` ,	} MetaData BodyLength {
+    asx
+x_y_z `" ++ [233]%N ++ runes_of_ascii "`
+, , uint64 u128 , }
+")).
+Eval vm_compute in ("<<<M4504>>>" ++ check (runes_of_ascii "packet body
+
+    {uint32 metadata	`
+`,
+    } MetaData body
+
+{
+uint16 int
+,  }
+MetaData
+	charz {
+	asx  matchKey,i8i8
+
+    int
+    ,
+string_ msg_type, }")).
+Eval vm_compute in ("<<<M1644>>>" ++ check (runes_of_ascii "options { } } packet Packet{char[] i64_ ,
+@tag(
+    255) match
+crc as i8i8{""{,}"" : trueish """" : Pad , ""a\\"" :
+Foo ,
+    1 :packetx
+, """ ++ [128512]%N ++ runes_of_ascii """ : trueish , } , }")).
+Eval vm_compute in ("<<<M2431>>>" ++ check (runes_of_ascii "
+packet MetaDataX
+{
+    @leftPad
+( // a // b
+'0'
+) i8 u @lengthOf(
+MetaDataX
+     `say ""hi""` ,	} MetaData BodyLength {
+    asx
+x_y_z `" ++ [233]%N ++ runes_of_ascii "`
+, uint64 u128 , }
+")).
+Eval vm_compute in ("<<<M1640>>>" ++ check (runes_of_ascii "options } { packet Packet{char[] i64_ ,
+@tag(
+    255) match
+crc as i8i8{""{,}"" : trueish """" : Pad , ""a\\"" :
+Foo ,
+    1 :packetx
+, """ ++ [128512]%N ++ runes_of_ascii """ : trueish , } , }")).
+Eval vm_compute in ("<<<M1789>>>" ++ check (runes_of_ascii "options { } packet Packet{char[] i64_ ,
+@tag(
+    255) match
+crc as i8i8{""{,}"" : trueish """" : Pad , ""a\\"" :
+Foo ,
+    1 :packetx
+""" ++ [128512]%N ++ runes_of_ascii """ , : trueish , } , }")).
+Eval vm_compute in ("<<<M1797>>>" ++ check (runes_of_ascii "options { } packet Packet{char[] i64_ ,
+@tag(
+    255) match
+crc as i8i8{""{,}"" : trueish """" : Pad , ""a\\"" :
+Foo ,
+    1 :packetx
+, """ ++ [128512]%N ++ runes_of_ascii """  trueish , } , }")).
+Eval vm_compute in ("<<<M4419>>>" ++ check (runes_of_ascii "MetaData	metadata	{ } MetaData
+
+    rootA
+{ i8
+
+    i64_, roots options1
+	    // c
+	`a\`
+
+    ,lengthOf
+	Header
+,Z9_ 
+Foo,	int16 BodyLength 
+,	}")).
+Eval vm_compute in ("<<<M1717>>>" ++ check (runes_of_ascii "options { } packet Packet{char[] i64_ ,
+@tag(
+    255) match
+crc as i8i8{ : trueish """" : Pad , ""a\\"" :
+Foo ,
+    1 :packetx
+, """ ++ [128512]%N ++ runes_of_ascii """ : trueish , } , }")).
+Eval vm_compute in ("<<<M1811>>>" ++ check (runes_of_ascii "options { } packet Packet{char[] i64_ ,
+@tag(
+    255) match
+crc as i8i8{""{,}"" : trueish """" : Pad , ""a\\"" :
+Foo ,
+    1 :packetx
+, """ ++ [128512]%N ++ runes_of_ascii """ : trueish")).
+Eval vm_compute in ("<<<M348>>>" ++ check (runes_of_ascii "packet
+    options1	{	char[
+4294967296] lengthOf `// not a comment` , } options { f32a = true;rootA =
+""{,}"" // " ++ [27880; 37322]%N ++ runes_of_ascii "
+;
+string_ =""1"" ; } // c")).
+Eval vm_compute in ("<<<M39>>>" ++ check (runes_of_ascii "options {	o =
+//
+//	t
+zchar[ 255 ] ;BodyLength = f32
+// packet A { u8 x, }
+// " ++ [27880; 37322]%N ++ runes_of_ascii "
+metadata
+= ""// no comment"" ; A =""" ++ [233]%N ++ runes_of_ascii "t" ++ [233]%N ++ runes_of_ascii """
+; } // @lengthOf(")).
+Eval vm_compute in ("<<<M3229>>>" ++ check (runes_of_ascii "// top
+MetaData
+    // c0
+zchar
+    // c1
+{
+    // c2
+zchar[
+    // c3
+3
+    // c4
+]
+    // c5
+Pad
+    // c6
+,
+    // c7
+}
+    // c8
+")).
+Eval vm_compute in ("<<<M3472>>>" ++ check (runes_of_ascii "
+options
+
+{LittleEndian
+
+=true 
+;
+}
+    root
+
+    packet
+    P
+{	u16
+a ,
+u32
+
+Sum
+	@calculatedFrom(  ""CRC32"" 
+)
+
+    ,
+	}
+")).
+Eval vm_compute in ("<<<M3269>>>" ++ check (runes_of_ascii "MetaData metadata { }
+// c
+MetaData rootA { i8 i64_ , roots options1 `a\` , lengthOf Header , Z9_ Foo , int16 BodyLength , }")).
+Eval vm_compute in ("<<<M3301>>>" ++ check (runes_of_ascii "MetaData metadata { } MetaData rootA { i8 i64_ , roots options1 `a\` , lengthOf Header , Z9_ Foo ,
+// c
+int16 BodyLength , }")).
+Eval vm_compute in ("<<<M819>>>" ++ check (runes_of_ascii "options
+    {lengthOf// 50% %s
+= true
+    int //
+= // c
+""1"" ; string_ =
+    //x
+    false ; //
+msg_type = ""CRC32"" } 	 ")).
+Eval vm_compute in ("<<<M3593>>>" ++ check (runes_of_ascii "packet f32a {
+    int16 int,
+}
+
+MetaData f32a {
+    char i8i8,/// triple
+    string Pad,
+    zchar f32a,
+    x T,
+}")).
+Eval vm_compute in ("<<<M3856>>>" ++ check (runes_of_ascii "  packet 
+A
+{u16 len
+@lengthOf(body )`x
+`	,
+u32 crc@calculatedFrom( ""CRC32""  ) `x
+`
+
+,string	body
+
+    , 
+}
+")).
+Eval vm_compute in ("<<<M3340>>>" ++ check (runes_of_ascii "MetaData float { uint8 BodyLength , } MetaData charz { float32 trueish // c
+`a\` , i16 metadata `say ""hi""` , }")).
+Eval vm_compute in ("<<<M3026>>>" ++ check (runes_of_ascii "packet A {
+    u16 len @lengthOf(body) `a
+b`,
+    u32 crc @calculatedFrom(""CRC32"") `a
+b`,
+    string body,
+}")).
+Eval vm_compute in ("<<<M2775>>>" ++ check (runes_of_ascii "char int64 char[ false uint32 @calculatedFrom( @calculatedFrom( match ' ' u64 @lengthOf( uint64 @leftPad")).
+Eval vm_compute in ("<<<M222>>>" ++ check (runes_of_ascii "packet len { } root
+    packet
+    Foo
+{ } packet matchKey
+    {char[ 10	]string_ `{ , }`  ,// " ++ [27880; 37322]%N ++ runes_of_ascii "
+}
+")).
+Eval vm_compute in ("<<<M1344>>>" ++ check (runes_of_ascii "packet _x // trailing space 
+{// packet A { u8 x, }
+} root packet
+f32a {
+}
+// packet A { u8 x, }
+")).
+Eval vm_compute in ("<<<M3012>>>" ++ check (runes_of_ascii "packet A {
+  match k as n {
+    [1, 22, 007, 4, 5, 66, 7, 8, 9, 10, 11, 12] : B
+    2 : C
+  },
+}")).
+Eval vm_compute in ("<<<M4516>>>" ++ check (runes_of_ascii "  packet
+A
+
+{	match 
+k  as
+
+n 
+{
+[
+1
+,
+22	, 
+""c c""
+
+    ,4	] 
+: B , 2
+
+    : C
+
+},
+}
+")).
+Eval vm_compute in ("<<<M299>>>" ++ check (runes_of_ascii "//
+MetaData
+//	t
+// trailing space 
+Z9_ { zchar lengthOf , char[
+// " ++ [27880; 37322]%N ++ runes_of_ascii "
+// c
+255 ]  T ,
+}
+
+")).
+Eval vm_compute in ("<<<M2216>>>" ++ check (runes_of_ascii "MetaData { _x string x `// not a comment` , string
+i64_ // trailing space 
+`a\` ,
+    }
+")).
+Eval vm_compute in ("<<<M2247>>>" ++ check (runes_of_ascii "MetaData _x {string x `// not a comment` , char[]
+i64_ // trailing space 
+`a\` ,
+    }
+")).
+Eval vm_compute in ("<<<M2953>>>" ++ check (runes_of_ascii "packet A {
+  match k as n {
+    [""a"", 22, ""c c"", 4, ""e"", 66, ""g""] : B
+    2 : C
+  },
+}")).
+Eval vm_compute in ("<<<M2973>>>" ++ check (runes_of_ascii "packet A {
+  match k as n {
+    [1, 22, 007, 4, 5, 66, 7, 8, 9] : B
+    2 : C
+  },
+}")).
+Eval vm_compute in ("<<<M1057>>>" ++ check (runes_of_ascii "packet Logon {@leftPad (
+    )	int8 calculatedFrom @lengthOf( charz
+) //x
+, } 	 ")).
+Eval vm_compute in ("<<<M4543>>>" ++ check (runes_of_ascii "
+
+  packet
+	A	{
+B b	`x
+`
+
+    ,
+B`x
+` ,
+repeat
+
+B bs
+
+    `x
+`
+
+    , } ")).
+Eval vm_compute in ("<<<M313>>>" ++ check (runes_of_ascii "// " ++ [27880; 37322]%N ++ runes_of_ascii "
+MetaData uint8x { uint64 msg_type , } MetaData x_y_z {Logon metadata, }")).
+Eval vm_compute in ("<<<M3373>>>" ++ check (runes_of_ascii "MetaData _x { f64 charz
+// c
+`tab	here` , } options { BodyLength = """ ++ [233]%N ++ runes_of_ascii "t" ++ [233]%N ++ runes_of_ascii """ ; }")).
+Eval vm_compute in ("<<<M4389>>>" ++ check (runes_of_ascii "packet
+	o { @tag( // c
+    4294967296	) 
+options1
+
+@lengthOf(u8x  )`" ++ [233]%N ++ runes_of_ascii "` , }
+")).
+Eval vm_compute in ("<<<M176>>>" ++ check (runes_of_ascii "MetaData Header { }MetaData//	t
+falsey { char[] // " ++ [128512]%N ++ runes_of_ascii " emoji
+charz
+, }
+")).
+Eval vm_compute in ("<<<M3401>>>" ++ check (runes_of_ascii "
+// c
+packet o { @tag( 4294967296 ) options1 @lengthOf( u8x ) `" ++ [233]%N ++ runes_of_ascii "` , }")).
+Eval vm_compute in ("<<<M3419>>>" ++ check (runes_of_ascii "packet o { @tag( 4294967296 ) options1 @lengthOf( u8x
+// c
+) `" ++ [233]%N ++ runes_of_ascii "` , }")).
+Eval vm_compute in ("<<<M2190>>>" ++ check (runes_of_ascii "packet// packet A { u8 x, }
+repeatCount	{// packet A { u8 x, }
+@le")).
+Eval vm_compute in ("<<<M3779>>>" ++ check (runes_of_ascii "root packet calculatedFrom {
+    len @calculatedFrom(""CRC32""),
+}")).
+Eval vm_compute in ("<<<M1890>>>" ++ check (runes_of_ascii "packet	packetx { // trailing space 
+x_y_z
+{
+string
+charz ,")).
+Eval vm_compute in ("<<<M4216>>>" ++ check (runes_of_ascii "options {msg_type // trailing space 
+	=
+
+    '\x00'
+;
+}
+")).
+Eval vm_compute in ("<<<M1452>>>" ++ check (runes_of_ascii "packet calculatedFrom
+{ @calculatedFrom( ""a\\"" ) zchar[")).
+Eval vm_compute in ("<<<M3622>>>" ++ check (runes_of_ascii "packet i64_ {
+    @tag(0123456789)
+    repeat zchar,
+}")).
+Eval vm_compute in ("<<<M1263>>>" ++ check (runes_of_ascii "MetaData f32a {	body// trailing space 
+uint8x ,  }
+")).
+Eval vm_compute in ("<<<M1447>>>" ++ check (runes_of_ascii "packet calculatedFrom
+{ @calculatedFrom( ""a\\"" )")).
+Eval vm_compute in ("<<<M2771>>>" ++ check (runes_of_ascii "i16 repeat `a\` uint32 i32 int64 int64 : '0' = :")).
+Eval vm_compute in ("<<<M375>>>" ++ check (runes_of_ascii "
+MetaData BodyLength// `tick` ""quote"" 'q'
+{ }")).
+Eval vm_compute in ("<<<M708>>>" ++ check (runes_of_ascii "//x
+packet options1 { // trailing space 
+}
+")).
+Eval vm_compute in ("<<<M2645>>>" ++ check (runes_of_ascii "packet A { @leftPad('0' '0') char[2] x, }")).
+Eval vm_compute in ("<<<M3241>>>" ++ check (runes_of_ascii "MetaData zchar { zchar[ 3 // c
+] Pad , }")).
+Eval vm_compute in ("<<<M4138>>>" ++ check (runes_of_ascii "  packet
+A	{ u8	x `d" ++ [12]%N ++ runes_of_ascii "`
+	,  // c" ++ [12]%N ++ runes_of_ascii "
+  }
+")).
+Eval vm_compute in ("<<<M2776>>>" ++ check ([65533]%N ++ runes_of_ascii "-," ++ [65533]%N ++ runes_of_ascii "?" ++ [65533; 65533]%N ++ runes_of_ascii "l" ++ [65533; 65533; 65533]%N ++ runes_of_ascii "6" ++ [65533; 65533]%N ++ runes_of_ascii "[" ++ [65533; 14; 15]%N ++ runes_of_ascii "_" ++ [16; 65533; 65533]%N ++ runes_of_ascii "s" ++ [693]%N ++ runes_of_ascii "L" ++ [26]%N ++ runes_of_ascii "n" ++ [65533; 65533; 65533; 65533; 65533; 18; 65533; 1407]%N ++ runes_of_ascii "G")).
+Eval vm_compute in ("<<<M4112>>>" ++ check (runes_of_ascii "options {
+    float = zchar[007];
+}")).
+Eval vm_compute in ("<<<M2833>>>" ++ check (runes_of_ascii "JS$sL9C>*\Nhs=,C;8pj8kfn{q^!)UW!'")).
+Eval vm_compute in ("<<<M2720>>>" ++ check ([65533]%N ++ runes_of_ascii ":" ++ [65533]%N ++ runes_of_ascii "o" ++ [65533; 28; 65533]%N ++ runes_of_ascii "o" ++ [14; 65533]%N ++ runes_of_ascii "9" ++ [65533; 24; 1654; 65533]%N ++ runes_of_ascii "|2" ++ [65533; 65533]%N ++ runes_of_ascii "1\" ++ [65533]%N ++ runes_of_ascii "iI" ++ [65533; 65533]%N ++ runes_of_ascii """" ++ [65533; 65533]%N ++ runes_of_ascii "0" ++ [65533]%N)).
+Eval vm_compute in ("<<<M327>>>" ++ check (runes_of_ascii "packet calculatedFrom
+    {}
+")).
+Eval vm_compute in ("<<<M1201>>>" ++ check (runes_of_ascii "root
+packet repeatCount { }")).
+Eval vm_compute in ("<<<M2768>>>" ++ check ([65533; 65533; 65533; 65533]%N ++ runes_of_ascii "V" ++ [65533; 27; 65533; 65533]%N ++ runes_of_ascii "F" ++ [65533; 65533; 65533]%N ++ runes_of_ascii "#" ++ [65533; 8; 65533]%N ++ runes_of_ascii ",X" ++ [65533; 65533; 65533]%N ++ runes_of_ascii "@" ++ [65533]%N ++ runes_of_ascii ">" ++ [12]%N)).
+Eval vm_compute in ("<<<M302>>>" ++ check (runes_of_ascii "packet  lengthOf  { } 	 ")).
+Eval vm_compute in ("<<<M828>>>" ++ check (runes_of_ascii "// a // b
+packet o	{ }")).
+Eval vm_compute in ("<<<M2664>>>" ++ check (runes_of_ascii "MetaData M { u8 x, }")).
+Eval vm_compute in ("<<<M3170>>>" ++ check (runes_of_ascii "// c 	
+packet A {
+}")).
+Eval vm_compute in ("<<<M3145>>>" ++ check (runes_of_ascii "// c" ++ [8233]%N ++ runes_of_ascii "
+packet A {
+}")).
+Eval vm_compute in ("<<<M2591>>>" ++ check (runes_of_ascii "packet A { x y, }")).
+Eval vm_compute in ("<<<M994>>>" ++ check (runes_of_ascii "packet x
+{
+    }")).
+Eval vm_compute in ("<<<M804>>>" ++ check (runes_of_ascii "options  { }
+
+")).
+Eval vm_compute in ("<<<M1368>>>" ++ check (runes_of_ascii "options {
+}")).
+Eval vm_compute in ("<<<M2786>>>" ++ check (runes_of_ascii "i64_ false")).
+Eval vm_compute in ("<<<M1642>>>" ++ check (runes_of_ascii "options")).
+Eval vm_compute in ("<<<M2482>>>" ++ check (runes_of_ascii "repeat")).
+Eval vm_compute in ("<<<M2729>>>" ++ check (runes_of_ascii "7-IxI")).
+Eval vm_compute in ("<<<M2535>>>" ++ check (runes_of_ascii """\\""")).
+Eval vm_compute in ("<<<M2543>>>" ++ check (runes_of_ascii "`\`")).
+Eval vm_compute in ("<<<M2550>>>" ++ check (runes_of_ascii "-1")).
+Eval vm_compute in ("<<<M2712>>>" ++ check (runes_of_ascii "{")).
